@@ -4,8 +4,8 @@ from __future__ import annotations
 import ast
 
 from ..core import Ctx
-from ..match import arg, call_name, calls, facts_at, local_defs, resolve, single_def, unreachable_assuming
-from ..model import AnalysisError, FuncInfo, chain, const_value, enclosing_stmt, norm, strip_cast, walk_no_nested
+from ..match import arg, call_name, calls, fact_of, facts_at, local_defs, resolve, single_def, unreachable_assuming
+from ..model import NOCONST, AnalysisError, FuncInfo, chain, const_value, enclosing_stmt, head, norm, strip_cast, walk_no_nested
 
 LEVEL = "other"
 EXPLANATION = (
@@ -18,12 +18,161 @@ EXPLANATION = (
     "functions that call remove_* (new private helpers of a listed function and super() overrides inherit the permission); nothing "
     "reachable from on_create removes an entry; no except-handler that can receive CryptoException (class hierarchy) leads to a "
     "remove_* call; layers of an own circuit are removed only when it has at least one keyed hop (a circuit whose first CREATE is "
-    "outstanding accepts plaintext cells only). Interleavings of concurrent circuits are not explored."
+    "outstanding accepts plaintext cells only); the adjacent hop of a routing entry (hop / hop.peer / hop.peer.address, which is where its return "
+    "traffic goes) is never assigned after construction; a store into a routing table under an id that is not wire-controlled uses a freshly "
+    "generated id (also one parked in our own request cache by the function that generated it) or converts an entry that exists under that id in "
+    "another table. Guards are read off the function's control-flow graph first; where that reading fails the same question is asked path by "
+    "path on a symbolic walk (locals expanded to the expressions they were bound to, tests over constants folded, loops over literal tuples "
+    "unrolled, generator helpers stepped with the consuming loop, private helpers entered with parameters bound to the arguments). "
+    "Interleavings of concurrent circuits are not explored."
 )
 
 TC = "ipv8/messaging/anonymization/community.py"
 HS = "ipv8/messaging/anonymization/hidden_services.py"
 TABLES = {"circuits": "self.circuits", "relay_from_to": "self.relay_from_to", "exit_sockets": "self.exit_sockets"}
+
+
+# ---------------------------------------------------------------- predicates over expanded expressions / facts
+def _is_none(e) -> bool:
+    return isinstance(e, ast.Constant) and e.value is None
+
+
+def _entry_of(e, tables, keyp) -> bool:
+    """e denotes the entry of one of `tables` under a key accepted by keyp: T[k], T.get(k), T.get(k, None)"""
+    e = strip_cast(e)
+    tables = (tables,) if isinstance(tables, str) else tables
+    if isinstance(e, ast.Subscript):
+        return chain(e.value) in tables and bool(keyp(strip_cast(e.slice)))
+    if isinstance(e, ast.Call) and isinstance(e.func, ast.Attribute) and e.func.attr == "get" and chain(e.func.value) in tables \
+            and not e.keywords and 1 <= len(e.args) <= 2 and not isinstance(e.args[0], ast.Starred):
+        return (len(e.args) == 1 or _is_none(e.args[1])) and bool(keyp(strip_cast(e.args[0])))
+    return False
+
+
+def _present(f, tables, keyp) -> bool:
+    """fact f states that the entry under the key exists: `k in T`, `T.get(k)` truthy / is not None / != None"""
+    tables = (tables,) if isinstance(tables, str) else tables
+    if f.op == "in":
+        return f.pos and bool(keyp(strip_cast(f.left))) and chain(_container(f.right)) in tables
+    if f.op == "truthy":
+        return f.pos and _entry_of(f.left, tables, keyp)
+    if f.op in ("is", "eq") and f.right is not None:
+        for a, b in ((f.left, f.right), (f.right, f.left)):
+            if _is_none(strip_cast(b)) and _entry_of(a, tables, keyp):
+                return not f.pos
+    return False
+
+
+def _absent(f, tables, keyp) -> bool:
+    """fact f states that there is no entry under the key: `k not in T`, `T.get(k) is None`, `not T.get(k)`"""
+    tables = (tables,) if isinstance(tables, str) else tables
+    if f.op == "in":
+        return not f.pos and bool(keyp(strip_cast(f.left))) and chain(_container(f.right)) in tables
+    if f.op == "truthy":
+        return not f.pos and _entry_of(f.left, tables, keyp) and not isinstance(strip_cast(f.left), ast.Subscript)
+    if f.op in ("is", "eq") and f.right is not None:
+        for a, b in ((f.left, f.right), (f.right, f.left)):
+            if _is_none(strip_cast(b)) and _entry_of(a, tables, keyp) and not isinstance(strip_cast(a), ast.Subscript):
+                return f.pos
+    return False
+
+
+def _eq_sides(f):
+    return ((f.left, f.right), (f.right, f.left)) if f.op == "eq" and f.pos and f.right is not None else ()
+
+
+def _hop_field_of(e, field: str):
+    """X for `X.hop.<field>`, else None"""
+    e = strip_cast(e)
+    if isinstance(e, ast.Attribute) and e.attr == field and isinstance(strip_cast(e.value), ast.Attribute) and strip_cast(e.value).attr == "hop":
+        return strip_cast(strip_cast(e.value).value)
+    return None
+
+
+def _try_walk(ctx: Ctx, fi: FuncInfo, force=()):
+    """the path walk of fi, or None when the walk itself is undecided (the caller then has only its direct reading of the function)"""
+    try:
+        return _walk(ctx, fi, force)
+    except AnalysisError as e:
+        ctx.note(f"path walk of {fi.qualname} undecided: {e}")
+        return None
+
+
+def _call_groups(ctx: Ctx, fi: FuncInfo, match, force=()):
+    """
+    {(id(call node), matched name): (call node, name, [one _Hit per path that executes it])} for the calls executed by fi or by the
+    private helpers it steps into; match(chain of the expanded callee, expanded callee) -> name | None.  None when undecided.
+    """
+    w = _try_walk(ctx, fi, force)
+    if w is None:
+        return None
+    out: dict = {}
+    for h in w.hits:
+        if h.kind != "call":
+            continue
+        for f in h.funcs():
+            nm = match(chain(f), f)
+            if nm:
+                out.setdefault((id(h.orig), nm), (h.orig, nm, []))[2].append(h)
+    return out
+
+
+def _decide(ctx: Ctx, rule: str, fi: FuncInfo, node, direct_ok, hits, path_ok, desc: str, reason: str, facts=None, *,
+            callers: bool = False) -> bool:
+    """
+    One site.  direct_ok: verdict of the reading of fi's own control-flow graph (None: the site is not written in fi itself).
+    Otherwise every path of the walk that executes the site has to satisfy path_ok.  Undecided walk and no direct verdict: exit 2.
+    callers=True: a site that is not guarded inside fi is still fine when fi is only ever entered through call sites that establish
+    the guard (fi is stepped into from each of its callers, the tests passed in the caller count for the site).
+    """
+    at = ctx.repo.function_of(node) if getattr(node, "_parent", None) is not None else None
+    at = at if isinstance(at, FuncInfo) else fi
+    if direct_ok:
+        return ctx.check(True, rule, at, node, desc, reason, facts)
+    if hits is None:
+        if direct_ok is None:
+            raise AnalysisError(f"undecided: {rule}: `{norm(node)[:80]}` in {fi.qualname} could not be followed")
+        return ctx.check(False, rule, at, node, desc, reason, facts)
+    bad = [h for h in hits if not path_ok(h)]
+    if hits and not bad:
+        return ctx.check(True, rule, at, node, desc, reason, facts)
+    if hits and callers and _guarded_by_callers(ctx, fi, hits[0].orig, path_ok):
+        return ctx.check(True, rule, at, node, desc + " (established by every caller)", reason, facts)
+    if bad:
+        facts = [str(f) for f in bad[0].facts()] + [f"(path {bad[0].via()})"]
+    return ctx.check(False, rule, at, node, desc, reason, facts)
+
+
+def _guarded_by_callers(ctx: Ctx, fi: FuncInfo, orig, path_ok) -> bool:
+    repo = ctx.repo
+    sites = []
+    for _m, caller, c in repo.callers_of_name(fi.name):
+        if caller is None:
+            return False
+        if caller.node is fi.node:
+            continue
+        if not any(t.node is fi.node for t in repo.resolve_call(caller, c) if isinstance(t, FuncInfo)):
+            if isinstance(c.func, ast.Attribute) and not (isinstance(c.func.value, ast.Name) and c.func.value.id == "self"):
+                continue            # <other object>.name(...): resolved to something else or nothing
+            if isinstance(c.func, ast.Name) and fi.cls is not None:
+                continue            # a bare function of the same name, fi is a method
+        sites.append((caller, c))
+    for _m, user, a in repo.attribute_uses(fi.name):
+        if isinstance(a.ctx, ast.Load) and not (isinstance(getattr(a, "_parent", None), ast.Call) and a._parent.func is a) \
+                and isinstance(a.value, ast.Name) and a.value.id == "self":
+            return False            # handed around as a callback: entered from places that cannot be enumerated
+    if not sites or not fi.module.relpath.startswith(PKG) or any(not c.module.relpath.startswith(PKG) for c, _ in sites):
+        return False
+    if len(ctx.repo.dispatch(fi.cls, fi.name)) > 1 if fi.cls is not None else False:
+        return False                # overridden: the callers may enter another implementation, and others may enter this one
+    for caller in {c for c, _ in sites}:
+        w = _try_walk(ctx, caller, force=(fi,))
+        if w is None:
+            return False
+        hs = [h for h in w.hits if h.orig is orig]
+        if not hs or not all(path_ok(h) for h in hs):
+            return False
+    return True
 
 
 def rule_destroy(ctx: Ctx) -> None:
@@ -52,13 +201,21 @@ def rule_destroy(ctx: Ctx) -> None:
                                   and not a.keywords and inner_pred(a.args[0]) for a in alts)
 
     removes = [c for c in calls(fi) if call_name(c) in ("remove_relay", "remove_exit_socket", "remove_circuit")]
-    ctx.floor("destroy-authorised", len(removes), 4)
+    # the same question asked path by path: covers removals reached through a decision tag, a (table, remover) dispatch
+    # sequence, a remover bound to a local, or a private helper that acts on the decision
+    groups = _call_groups(ctx, fi, lambda ch, f: f.attr if isinstance(f, ast.Attribute) and f.attr in REMOVERS and chain(f.value) == "self" else None)
+    sites: dict = {(id(c), call_name(c)): (c, call_name(c)) for c in removes}
+    for k, (orig, nm, _hits) in (groups or {}).items():
+        sites.setdefault(k, (orig, nm))
+    examined = {(k, norm(arg(h.node(), 0, "circuit_id"))) for k, (_o, _n, hs) in (groups or {}).items() for h in hs} | \
+        {(k, None) for k in sites if k not in (groups or {})}
+    ctx.floor("destroy-authorised", max(len(sites), len({(k, t) for k, t in examined})), 4)
+    direct: dict = {}
     for c in removes:
         facts = facts_at(cfg, c)
         target = strip_cast(arg(c, 0))
         kind = call_name(c)
         ok = False
-        why = ""
         if kind == "remove_relay":
             # sender must be the neighbour on the side the destroy came from:
             # peer == relay_from_to.get(relay_from_to.get(cid).circuit_id).hop.peer
@@ -79,7 +236,6 @@ def rule_destroy(ctx: Ctx) -> None:
             t_ok = is_cid(target) or (isinstance(target, ast.Attribute) and target.attr == "circuit_id"
                                       and relay_get_of(target.value, is_cid))
             ok = ok and t_ok
-            why = "remove_relay must be dominated by peer == relay_from_to[relay_from_to[cid].circuit_id].hop.peer and remove cid or its paired id"
         else:
             table = "self.exit_sockets" if kind == "remove_exit_socket" else "self.circuits"
             member = any(f.op == "in" and f.pos and is_cid(f.left) and chain(f.right) == table for f in facts)
@@ -95,10 +251,48 @@ def rule_destroy(ctx: Ctx) -> None:
                     if ps and es:
                         auth = True
             ok = member and auth and is_cid(target)
+        direct[(id(c), kind)] = (ok, [str(f) for f in facts])
+
+    RT = "self.relay_from_to"
+
+    def x_cid(e) -> bool:
+        return norm(strip_cast(e)) == f"{payload}.circuit_id"
+
+    def x_first(e) -> bool:                     # relay_from_to[cid]: the route the destroyed id is relayed to
+        return _entry_of(e, RT, x_cid)
+
+    def x_pair_key(k) -> bool:                  # relay_from_to[cid].circuit_id
+        return isinstance(k, ast.Attribute) and k.attr == "circuit_id" and x_first(k.value)
+
+    def path_ok(h: _Hit, kind: str) -> bool:
+        facts = h.facts()
+        call = h.node()
+        target = arg(call, 0, "circuit_id")
+        if target is None:
+            return False
+        target = strip_cast(target)
+        if kind == "remove_relay":
+            auth = any(chain(a) == peer and _hop_field_of(b, "peer") is not None
+                       and _entry_of(_hop_field_of(b, "peer"), RT, x_pair_key) for f in facts for a, b in _eq_sides(f))
+            return auth and (x_cid(target) or x_pair_key(target))
+        table = "self.exit_sockets" if kind == "remove_exit_socket" else "self.circuits"
+        auth = any(chain(a) == peer and _hop_field_of(b, "peer") is not None
+                   and _entry_of(_hop_field_of(b, "peer"), table, x_cid) for f in facts for a, b in _eq_sides(f))
+        # `peer == T[cid].hop.peer` (or T.get(cid).hop.peer) was EVALUATED and held: the entry exists (KeyError / None.hop otherwise)
+        return auth and x_cid(target)
+
+    for key, (c, kind) in sites.items():
+        d_ok, d_facts = direct.get(key, (None, None))
+        hits = None if groups is None else groups.get(key, (None, None, []))[2]
+        if kind == "remove_relay":
+            why = "remove_relay must be dominated by peer == relay_from_to[relay_from_to[cid].circuit_id].hop.peer and remove cid or its paired id"
+        else:
+            table = "self.exit_sockets" if kind == "remove_exit_socket" else "self.circuits"
             why = f"{kind} must be dominated by cid in {table} and peer == {table}[cid].hop.peer"
-        ctx.check(ok, "destroy-authorised", fi, c, f"{kind}({norm(target)}) authorised by the adjacent peer of that entry",
-                  "a destroy message can remove a circuit/relay/exit entry without being signed by the adjacent node: " + why,
-                  [str(f) for f in facts])
+        tgt = arg(c, 0, "circuit_id")
+        _decide(ctx, "destroy-authorised", fi, c, d_ok, hits, lambda h, kind=kind: path_ok(h, kind),
+                f"{kind}({norm(resolve(fi, strip_cast(tgt))) if tgt is not None else ''}) authorised by the adjacent peer of that entry",
+                "a destroy message can remove a circuit/relay/exit entry without being signed by the adjacent node: " + why, d_facts)
 
 
 def _alternatives(fi: FuncInfo, e: ast.AST, depth: int = 4) -> list[ast.AST]:
@@ -188,18 +382,51 @@ def rule_no_overwrite(ctx: Ctx) -> None:
                               for f in facts)
                     if not has:
                         missing.append(tname)
-                ctx.check(not missing, "no-overwrite-live-id", fi, st,
-                          f"store {norm(t)} with wire-controlled key is dominated by `key not in T` for all three tables",
-                          f"a request naming circuit id `{key_txt}` ({how}) can replace a live entry: no dominating "
-                          f"`not in` check for {missing} (a time-limited request-cache check does not protect a live entry)",
-                          [str(f) for f in facts])
+                w = _try_walk(ctx, fi) if missing else None
+                hits = None if w is None else [h for h in w.hits if h.kind == "store" and h.orig is t]
+
+                def path_ok(h: _Hit) -> bool:
+                    # on this path the key (as stored) has been tested absent from every table: `k not in T`, `T.get(k) is None`,
+                    # any()/all() over the tables, a union of the tables, a private helper returning the answer
+                    key = norm(strip_cast(h.node().slice))
+                    return all(any(_absent(f, tchain, lambda k: norm(k) == key) for f in h.facts()) for tchain in TABLES.values())
+
+                _decide(ctx, "no-overwrite-live-id", fi, st, not missing, hits, path_ok,
+                        f"store {norm(t)} with wire-controlled key is dominated by `key not in T` for all three tables",
+                        f"a request naming circuit id `{key_txt}` ({how}) can replace a live entry: no dominating "
+                        f"`not in` check for {missing} (a time-limited request-cache check does not protect a live entry)",
+                        [str(f) for f in facts], callers=True)
+    if n < 6:
+        # one store statement may stand for several stores (a loop over a literal {id: route} mapping): count (statement, id stored under)
+        seen = set()
+        reviewed = {"TunnelCommunity.create_circuit", "TunnelCommunity.join_circuit", "TunnelCommunity.on_created", "HiddenTunnelCommunity.on_link_e2e"}
+        helpers = tuple(f for f in _pkg_functions(repo) if f.qualname in writers and f.qualname not in reviewed)
+        for fi in _pkg_functions(repo):
+            if fi.qualname in reviewed:
+                w = _try_walk(ctx, fi, force=helpers)
+                for h in (w.hits if w is not None else []):
+                    if h.kind == "store" and isinstance(h.orig, ast.Subscript) and _table_of(chain(h.orig)):
+                        seen.add((id(h.orig), norm(h.node().slice)))
+        n = max(n, len(seen))
     ctx.floor("no-overwrite-live-id", n, 6)
     ctx.extra["table_writers"] = writers
-    # closed set of writers
+    # closed set of writers (a private helper used only by reviewed writers is part of them)
     allowed = {"TunnelCommunity.create_circuit", "TunnelCommunity.join_circuit", "TunnelCommunity.on_created",
                "HiddenTunnelCommunity.on_link_e2e"}
+
+    def writer_ok(fi: FuncInfo | None, seen: frozenset = frozenset()) -> bool:
+        if fi is None:
+            return False
+        if fi.qualname in allowed:
+            return True
+        if not fi.name.startswith("_") or fi.name.startswith("__") or fi.qualname in seen:
+            return False
+        users = _callers_within(repo, fi)
+        return bool(users) and all(writer_ok(u, seen | {fi.qualname}) for u in users)
+
     for w in writers:
-        ctx.check(w in allowed, "table-writers", next(f.where for f in repo.all_functions() if f.qualname == w), w, f"{w} is a reviewed writer of the routing tables",
+        wf = next(f for f in repo.all_functions() if f.qualname == w)
+        ctx.check(writer_ok(wf), "table-writers", wf.where, w, f"{w} is a reviewed writer of the routing tables",
                   f"{w} stores into a routing table but is not one of the reviewed writers {sorted(allowed)}")
     # pops / deletions
     for fi in repo.all_functions():
@@ -219,20 +446,55 @@ def rule_no_overwrite(ctx: Ctx) -> None:
     # create-window (weaker, holds today): join_circuit only when no pending CreatedRequestCache and flags set
     oc = repo.method("TunnelCommunity", "on_create", TC)
     cfg = ctx.cfg(oc)
-    for c in ctx.anchor(calls(oc, "self.join_circuit"), "join_circuit call in on_create"):
-        facts = facts_at(cfg, c)
-        no_pending = any(f.op == "truthy" and not f.pos and isinstance(f.left, ast.Call) and chain(f.left.func) == "self.request_cache.has"
-                         and chain(f.left.args[0]) == "CreatedRequestCache" and norm(f.left.args[1]).endswith(".circuit_id") for f in facts)
-        flags = any(f.op == "truthy" and f.pos and chain(f.left) == "self.settings.peer_flags" for f in facts)
-        ctx.check(no_pending and flags, "create-window", oc, c, "join only without a pending created-cache for that id and with peer flags set",
-                  "a create for an id with a pending CreatedRequestCache (or with no peer flags) is joined", [str(f) for f in facts])
+    joins = calls(oc, "self.join_circuit")
+    groups = _call_groups(ctx, oc, lambda ch, f: "join_circuit" if ch == "self.join_circuit" else None)
+    sites = {(id(c), "join_circuit"): c for c in joins}
+    for k, (orig, _nm, _h) in (groups or {}).items():
+        sites.setdefault(k, orig)
+    ctx.anchor(list(sites), "join_circuit call in on_create")
+
+    def pending_cache_lookup(e, how: str) -> bool:
+        e = strip_cast(e)
+        return isinstance(e, ast.Call) and chain(e.func) == "self.request_cache." + how and len(e.args) >= 2 \
+            and chain(e.args[0]) == "CreatedRequestCache" and norm(e.args[1]).endswith(".circuit_id")
+
+    def path_ok(h: _Hit) -> bool:
+        fs = h.facts()
+        no_pending = any((f.op == "truthy" and not f.pos and (pending_cache_lookup(f.left, "has") or pending_cache_lookup(f.left, "get")))
+                         or (f.op in ("is", "eq") and f.pos and _is_none(strip_cast(f.right)) and pending_cache_lookup(f.left, "get"))
+                         for f in fs)
+        flags = any(f.op == "truthy" and f.pos and chain(f.left) == "self.settings.peer_flags" for f in fs)
+        return no_pending and flags
+
+    for key, c in sites.items():
+        d_ok = d_facts = None
+        if any(c is j for j in joins):
+            facts = facts_at(cfg, c)
+            no_pending = any(f.op == "truthy" and not f.pos and isinstance(f.left, ast.Call) and chain(f.left.func) == "self.request_cache.has"
+                             and chain(f.left.args[0]) == "CreatedRequestCache" and norm(f.left.args[1]).endswith(".circuit_id") for f in facts)
+            flags = any(f.op == "truthy" and f.pos and chain(f.left) == "self.settings.peer_flags" for f in facts)
+            d_ok, d_facts = no_pending and flags, [str(f) for f in facts]
+        _decide(ctx, "create-window", oc, c, d_ok, None if groups is None else groups.get(key, (None, None, []))[2], path_ok,
+                "join only without a pending created-cache for that id and with peer flags set",
+                "a create for an id with a pending CreatedRequestCache (or with no peer flags) is joined", d_facts)
     # _generate_circuit_id retries while the id is in use
     g = repo.method("TunnelCommunity", "_generate_circuit_id", TC)
     loops = [w for w in walk_no_nested(g.node) if isinstance(w, ast.While)]
     ok = bool(loops) and isinstance(loops[0].test, ast.Compare) and isinstance(loops[0].test.ops[0], ast.In) \
         and chain(loops[0].test.comparators[0]) == "self.circuits"
+    if not ok:
+        # every way out of the function returns a value that was tested `not in self.circuits` last
+        w = _try_walk(ctx, g)
+        if w is None:
+            raise AnalysisError("undecided: _generate_circuit_id could not be followed")
+        rets = [(st, v) for kind, st, v in w.ends if kind == "return" and v is not None]
+        ok = bool(rets) and all(any(_absent(fact_of(a, pol), "self.circuits", lambda k, v=v: norm(k) == norm(v)) for a, pol in st.conds)
+                                for st, v in rets) and not any(kind == "next" for kind, _st, _v in w.ends)
     ctx.check(ok, "no-overwrite-live-id", g, g.node, "_generate_circuit_id loops while the id is in self.circuits",
               "locally generated circuit ids may collide with live circuits")
+
+
+DELIVER = ("self.on_packet_from_circuit", "self.endpoint.notify_listeners", "self.on_raw_data")
 
 
 def rule_data_origin(ctx: Ctx) -> None:
@@ -240,51 +502,123 @@ def rule_data_origin(ctx: Ctx) -> None:
     fi = repo.method("TunnelCommunity", "on_data", TC)
     cfg = ctx.cfg(fi)
     sock = fi.params()[1]
-    deliver = [c for c in calls(fi) if chain(c.func) in ("self.on_packet_from_circuit", "self.endpoint.notify_listeners", "self.on_raw_data")]
-    ctx.floor("data-origin", len(deliver), 3)
-    for c in deliver:
-        facts = facts_at(cfg, c)
-        circ = any(f.op == "truthy" and f.pos and chain(f.left) == "circuit" for f in facts)
-        org = any(f.op == "truthy" and f.pos and chain(f.left) == "origin" for f in facts)
-        nb = any(f.op == "eq" and f.pos and {norm(f.left), norm(f.right)} == {sock, "circuit.hop.address"} for f in facts)
-        d = single_def(fi, "circuit")
-        src = d is not None and isinstance(strip_cast(d[0]), ast.Call) and chain(strip_cast(d[0]).func) == "self.circuits.get" \
-            and norm(resolve(fi, strip_cast(d[0]).args[0])).endswith(".circuit_id")
-        ctx.check(circ and org and nb and src, "data-origin", fi, c,
-                  "delivery dominated by circuit and origin and sock_addr == circuit.hop.address (circuit looked up by the cell's id)",
-                  "tunnel data is delivered upward without checking that it came from the circuit's first hop", [str(f) for f in facts])
+    deliver = [c for c in calls(fi) if chain(c.func) in DELIVER]
+    groups = _call_groups(ctx, fi, lambda ch, f: ch if ch in DELIVER else None)
+    sites = {(id(c), chain(c.func)): c for c in deliver}
+    for k, (orig, _nm, _h) in (groups or {}).items():
+        sites.setdefault(k, orig)
+    ctx.floor("data-origin", len(sites), 3)
+
+    def cell_cid(k) -> bool:
+        return norm(k).endswith(".circuit_id")
+
+    def path_ok(h: _Hit) -> bool:
+        fs = h.facts()
+        # the own circuit looked up by the cell's id exists ...
+        known: set[str] = set()
+        for f in fs:
+            got: list[str] = []
+            if _present(f, "self.circuits", lambda k, got=got: cell_cid(k) and (got.append(norm(k)) or True)):
+                known.update(got)
+        # ... the packet names an origin ...
+        org = any(f.op == "truthy" and f.pos and (chain(strip_cast(f.left)) or "").endswith(".org_address") for f in fs)
+        # ... and it was sent by that circuit's first hop
+        nb = any(chain(a) == sock and _hop_field_of(b, "address") is not None
+                 and _entry_of(_hop_field_of(b, "address"), "self.circuits", lambda k: norm(k) in known)
+                 for f in fs for a, b in _eq_sides(f))
+        return bool(known) and org and nb
+
+    for key, c in sites.items():
+        d_ok = d_facts = None
+        if any(c is x for x in deliver):
+            facts = facts_at(cfg, c)
+            circ = any(f.op == "truthy" and f.pos and chain(f.left) == "circuit" for f in facts)
+            org = any(f.op == "truthy" and f.pos and chain(f.left) == "origin" for f in facts)
+            nb = any(f.op == "eq" and f.pos and {norm(f.left), norm(f.right)} == {sock, "circuit.hop.address"} for f in facts)
+            d = single_def(fi, "circuit")
+            src = d is not None and isinstance(strip_cast(d[0]), ast.Call) and chain(strip_cast(d[0]).func) == "self.circuits.get" \
+                and norm(resolve(fi, strip_cast(d[0]).args[0])).endswith(".circuit_id")
+            d_ok, d_facts = circ and org and nb and src, [str(f) for f in facts]
+        _decide(ctx, "data-origin", fi, c, d_ok, None if groups is None else groups.get(key, (None, None, []))[2], path_ok,
+                "delivery dominated by circuit and origin and sock_addr == circuit.hop.address (circuit looked up by the cell's id)",
+                "tunnel data is delivered upward without checking that it came from the circuit's first hop", d_facts)
     # exit branch: exit_data returns for unknown ids
     ex = repo.method("TunnelCommunity", "exit_data", TC)
     cfgx = ctx.cfg(ex)
     cid = ex.params()[1]
-    for c in [c for c in calls(ex) if call_name(c) in ("sendto", "enable")]:
-        facts = facts_at(cfgx, c)
-        ok = any(f.op == "in" and f.pos and norm(f.left) == cid and chain(f.right) == "self.exit_sockets" for f in facts)
-        ctx.check(ok, "data-origin", ex, c, "exit only for circuit ids present in exit_sockets", "data exits for an unknown circuit id")
+    direct = [c for c in calls(ex) if call_name(c) in ("sendto", "enable")]
+    groups = _call_groups(ctx, ex, lambda ch, f: f.attr if isinstance(f, ast.Attribute) and f.attr in ("sendto", "enable") else None)
+    sites = {(id(c), call_name(c)): c for c in direct}
+    for k, (orig, _nm, _h) in (groups or {}).items():
+        sites.setdefault(k, orig)
+
+    def is_cid(k) -> bool:
+        return norm(k) == cid
+
+    def exit_path_ok(h: _Hit) -> bool:
+        # the socket that emits is the entry registered under the cell's circuit id, and that entry exists
+        recv = h.funcs()[0].value if len(h.funcs()) == 1 and isinstance(h.funcs()[0], ast.Attribute) else None
+        # (`self.exit_sockets[cid]` that was evaluated is an existing entry: an unknown id raises KeyError before anything is sent)
+        return recv is not None and _entry_of(recv, "self.exit_sockets", is_cid) and \
+            (isinstance(strip_cast(recv), ast.Subscript) or any(_present(f, "self.exit_sockets", is_cid) for f in h.facts()))
+
+    for key, c in sites.items():
+        d_ok = None
+        if any(c is x for x in direct):
+            facts = facts_at(cfgx, c)
+            d_ok = any(f.op == "in" and f.pos and norm(f.left) == cid and chain(f.right) == "self.exit_sockets" for f in facts)
+        _decide(ctx, "data-origin", ex, c, d_ok, None if groups is None else groups.get(key, (None, None, []))[2], exit_path_ok,
+                "exit only for circuit ids present in exit_sockets", "data exits for an unknown circuit id")
 
 
 def rule_return_path(ctx: Ctx) -> None:
     repo = ctx.repo
     td = repo.method("TunnelExitSocket", "tunnel_data", "ipv8/messaging/anonymization/exit_socket.py")
     sd = ctx.anchor(calls(td, "self.overlay.send_data"), "send_data in TunnelExitSocket.tunnel_data")
+    def bound(call) -> bool:
+        return norm(arg(call, 0)) == "self.hop.address" and norm(arg(call, 1)) == "self.circuit_id" \
+            and const_value(arg(call, 2)) == ("0.0.0.0", 0) and chain(arg(call, 3)) == td.params()[1] and chain(arg(call, 4)) == td.params()[2]
+
     for c in sd:
-        ok = norm(arg(c, 0)) == "self.hop.address" and norm(arg(c, 1)) == "self.circuit_id" \
-            and const_value(arg(c, 2)) == ("0.0.0.0", 0) and chain(arg(c, 3)) == td.params()[1] and chain(arg(c, 4)) == td.params()[2]
-        ctx.check(ok, "return-path-bound", td, c, "return traffic goes to the socket's own hop under its own circuit id, destination null, origin = outside source",
-                  "return traffic of an exit socket is not bound to that socket's own circuit/hop")
+        ok = all(arg(c, i) is not None for i in range(5)) and bound(c)
+        w = None if ok else _try_walk(ctx, td)
+        _decide(ctx, "return-path-bound", td, c, ok, None if w is None else [h for h in w.hits if h.orig is c],
+                lambda h: all(arg(h.node(), i) is not None for i in range(5)) and bound(h.node()),
+                "return traffic goes to the socket's own hop under its own circuit id, destination null, origin = outside source",
+                "return traffic of an exit socket is not bound to that socket's own circuit/hop")
     # circuit_id / hop of an exit socket are set once in __init__ from the constructor arguments
-    es = repo.cls("TunnelExitSocket")
+    def part_of_relay_cell(f: FuncInfo | None, seen: frozenset = frozenset()) -> bool:
+        """relay_cell, or a private helper that is only ever used by it (its re-labelling step moved out)"""
+        if f is None:
+            return False
+        if f.qualname == "PythonCryptoEndpoint.relay_cell":
+            return True
+        if not f.name.startswith("_") or f.name.startswith("__") or f.qualname in seen:
+            return False
+        users = _callers_within(repo, f)
+        return bool(users) and all(part_of_relay_cell(u, seen | {f.qualname}) for u in users)
+
     for m, fi, a in repo.attribute_uses("circuit_id"):
-        p = getattr(a, "_parent", None)
         if isinstance(a.ctx, ast.Store) and fi is not None:
-            ok = (fi.name == "__init__" and chain(a.value) == "self") \
-                or (fi.qualname == "PythonCryptoEndpoint.relay_cell" and chain(a.value) == "cell") \
+            base = chain(a.value)
+            is_cell = base == "cell" or (base in fi.params() and "CellPayload" in norm(next(
+                (p.annotation for p in fi.node.args.args if p.arg == base and p.annotation is not None), ast.Constant(value=""))))
+            ok = (fi.name == "__init__" and base == "self") \
+                or (is_cell and part_of_relay_cell(fi)) \
                 or not fi.module.relpath.startswith("ipv8/messaging/anonymization/")
             ctx.check(ok, "return-path-bound", fi, enclosing_stmt(a), f"circuit_id assigned in {fi.qualname}",
                       "the circuit id of a routing object is reassigned after construction")
     unwrap = repo.method("CellPayload", "unwrap", "ipv8/messaging/anonymization/payload.py")
     packs = [c for c in calls(unwrap, "pack")]
     ok = len(packs) == 1 and const_value(packs[0].args[0]) == "!I" and norm(packs[0].args[1]) == "self.circuit_id"
+    if not ok:
+        # same thing per path: every 4-byte id packed into the re-ordered cell is the header's circuit id (locals expanded)
+        w = _try_walk(ctx, unwrap)
+        hs = [h for h in (w.hits if w is not None else []) if h.kind == "call"
+              and ((h.names() == ["pack"] and h.node().args and const_value(h.node().args[0]) == "!I")
+                   or (h.names() == ["to_bytes"] and [const_value(x) for x in h.node().args] == [4, "big"]))]
+        ok = bool(hs) and len({id(h.orig) for h in hs}) == 1 and all(
+            norm(h.node().args[1] if h.names() == ["pack"] else h.node().func.value) == "self.circuit_id" and len(h.node().args) == 2 for h in hs)
     ctx.check(ok, "return-path-bound", unwrap, unwrap.node, "unwrap re-injects the header's circuit id", "unwrap injects a circuit id other than the cell header's")
     fb = repo.method("CellPayload", "from_bin", "ipv8/messaging/anonymization/payload.py")
     rets = [r for r in walk_no_nested(fb.node) if isinstance(r, ast.Return)]
@@ -293,27 +627,75 @@ def rule_return_path(ctx: Ctx) -> None:
         a0 = rets[0].value.args[0] if rets[0].value.args else None
         d = single_def(fb, a0.id) if isinstance(a0, ast.Name) else None
         ok = d is not None and d[1] == 0 and isinstance(strip_cast(d[0]), ast.Call) and chain(strip_cast(d[0]).func) == "unpack_from"
+    if not ok:
+        # per path: every constructed cell gets, as its circuit id, field 0 of an unpack of the packet header
+        w = _try_walk(ctx, fb)
+        ends = [(st, v) for kind, st, v in (w.ends if w is not None else []) if kind == "return"]
+
+        def header_field0(v) -> bool:
+            v = strip_cast(v) if v is not None else None
+            if not isinstance(v, ast.Call):
+                return False
+            cid = arg(v, 0, "circuit_id")
+            cid = strip_cast(cid) if cid is not None else None
+            if not (isinstance(cid, ast.Subscript) and const_value(cid.slice) == 0 and isinstance(strip_cast(cid.value), ast.Call)):
+                return False
+            u = strip_cast(cid.value)
+            # the header starts behind prefix (22) + message id (1), where to_bin() put it
+            return (chain(u.func) or "").rsplit(".", 1)[-1] == "unpack_from" and len(u.args) == 3 and const_value(u.args[2]) == 23 \
+                and isinstance(const_value(u.args[0]), str) and const_value(u.args[0]).lstrip("!>").startswith("I") \
+                and chain(u.args[1]) in fb.params()
+        ok = bool(ends) and all(header_field0(v) for _st, v in ends)
     ctx.check(ok, "return-path-bound", fb, fb.node, "cell circuit id is the first header field", "from_bin takes the circuit id from somewhere other than the cell header")
     # process_cell / routing use cell.circuit_id for all three lookups
-    pc = repo.method("PythonCryptoEndpoint", "process_cell", "ipv8/messaging/anonymization/crypto.py")
-    gets = [c for c in calls(pc) if chain(c.func) in ("self.relays.get", "self.circuits.get")]
-    for c in gets:
-        k = norm(resolve(pc, c.args[0]))
-        ctx.check(k in ("cell.circuit_id", "next_relay.circuit_id"), "return-path-bound", pc, c, f"routing lookup keyed by {k}",
-                  "process_cell routes by something other than the cell's circuit id")
+    CR = "ipv8/messaging/anonymization/crypto.py"
+
+    cell_params: set[str] = {"cell"}
+
+    def cell_of(v) -> bool:                     # the received cell: decoded from the datagram, or the cell handed to the crypto step
+        v = strip_cast(v)
+        return (isinstance(v, ast.Name) and v.id in cell_params) or (isinstance(v, ast.Call) and (chain(v.func) or "").endswith("CellPayload.from_bin"))
+
+    def cell_cid(k) -> bool:
+        k = strip_cast(k)
+        return isinstance(k, ast.Attribute) and k.attr == "circuit_id" and cell_of(k.value)
+
+    def paired_cid(k) -> bool:                  # the id the cell's relay route forwards to
+        k = strip_cast(k)
+        return isinstance(k, ast.Attribute) and k.attr == "circuit_id" and _entry_of(k.value, "self.relays", cell_cid)
+
+    def lookups(fn: FuncInfo, tables, direct_texts, path_key, desc, reason) -> None:
+        cell_params.clear()
+        cell_params.update(a.arg for a in fn.node.args.args if a.annotation is not None and "CellPayload" in norm(a.annotation))
+        direct = [c for c in calls(fn) if chain(c.func) in tables]
+        groups = _call_groups(ctx, fn, lambda ch, f: ch if ch in tables else None)
+        sites = {(id(c), chain(c.func)): c for c in direct}
+        for k, (orig, _nm, _h) in (groups or {}).items():
+            sites.setdefault(k, orig)
+        for key, c in sites.items():
+            d_ok = None
+            ktxt = norm(resolve(fn, c.args[0])) if c.args else "-"
+            if any(c is x for x in direct):
+                d_ok = ktxt in direct_texts
+            _decide(ctx, "return-path-bound", fn, c, d_ok, None if groups is None else groups.get(key, (None, None, []))[2],
+                    lambda h: bool(h.node().args) and path_key(h.node().args[0]), desc.format(k=ktxt), reason)
+
+    pc = repo.method("PythonCryptoEndpoint", "process_cell", CR)
+    lookups(pc, ("self.relays.get", "self.circuits.get"), ("cell.circuit_id", "next_relay.circuit_id"),
+            lambda k: cell_cid(k) or paired_cid(k), "routing lookup keyed by {k}", "process_cell routes by something other than the cell's circuit id")
     for name in ("incoming_crypto", "outgoing_crypto"):
-        f2 = repo.method("PythonCryptoEndpoint", name, "ipv8/messaging/anonymization/crypto.py")
-        for c in [c for c in calls(f2) if chain(c.func) in ("self.relays.get", "self.circuits.get", "self.exit_sockets.get")]:
-            k = norm(resolve(f2, c.args[0]))
-            ctx.check(k == "cell.circuit_id", "return-path-bound", f2, c, f"{name}: keys looked up by the cell's circuit id",
-                      f"{name} selects session keys by something other than the cell's circuit id")
+        f2 = repo.method("PythonCryptoEndpoint", name, CR)
+        lookups(f2, ("self.relays.get", "self.circuits.get", "self.exit_sockets.get"), ("cell.circuit_id",), cell_cid,
+                name + ": keys looked up by the cell's circuit id", f"{name} selects session keys by something other than the cell's circuit id")
 
 
 def rule_authenticated_accounting(ctx: Ctx) -> None:
     """A cell changes the state of an originator circuit only after it was decrypted with that circuit's keys."""
     pc = ctx.repo.method("PythonCryptoEndpoint", "process_cell", "ipv8/messaging/anonymization/crypto.py")
     cfg = ctx.cfg(pc)
-    n = 0
+    reason = ("process_cell updates the circuit's activity/traffic counters (`{c}`) before the cell is authenticated: anyone who knows a circuit id can keep "
+              "a dead circuit alive or push it over the traffic limit without holding its keys")
+    direct: dict = {}
     for node in walk_no_nested(pc.node):
         tgt = None
         if isinstance(node, ast.Call) and call_name(node) == "beat_heart":
@@ -325,13 +707,40 @@ def rule_authenticated_accounting(ctx: Ctx) -> None:
         src = resolve(pc, tgt)
         if not (isinstance(src, ast.Call) and chain(src.func) == "self.circuits.get"):
             continue        # relay accounting: a relay cannot authenticate backward traffic (it only adds a layer)
-        n += 1
         fs = facts_at(cfg, node)
         ok = any(f.op == "truthy" and f.pos and isinstance(f.left, ast.Call) and chain(f.left.func) == "self.incoming_crypto" for f in fs)
-        ctx.check(ok, "data-origin", pc, node, f"`{norm(node)[:40]}` on an originator circuit happens only after incoming_crypto accepted the cell",
-                  f"process_cell updates the circuit's activity/traffic counters (`{norm(node)[:40]}`) before the cell is authenticated: anyone who knows a circuit id can keep "
-                  "a dead circuit alive or push it over the traffic limit without holding its keys", [str(f) for f in fs])
-    ctx.floor("data-origin.accounting", n, 2)
+        direct[id(node if isinstance(node, ast.Call) else node.target)] = (node, ok, [str(f) for f in fs])
+    # the same per path (accounting moved into a helper, circuit bound on several paths): state of an entry of self.circuits
+    w = _try_walk(ctx, pc)
+    paths: dict = {}
+    for h in (w.hits if w is not None else []):
+        if h.kind == "call" and len(h.funcs()) == 1 and isinstance(h.funcs()[0], ast.Attribute) and h.funcs()[0].attr == "beat_heart":
+            owner = h.funcs()[0].value
+        elif h.kind == "store" and isinstance(h.orig, ast.Attribute) and h.orig.attr in ("bytes_down", "bytes_up") \
+                and isinstance(getattr(h.orig, "_parent", None), ast.AugAssign):
+            owner = h.node().value
+        else:
+            continue
+        if _entry_of(owner, "self.circuits", lambda k: True):
+            paths.setdefault(id(h.orig), (h.orig, []))[1].append(h)
+
+    def authenticated(h: _Hit) -> bool:
+        def accepted(e) -> bool:
+            e = strip_cast(e)
+            return isinstance(e, ast.Call) and chain(e.func) == "self.incoming_crypto"
+        return any((f.op == "truthy" and f.pos and accepted(f.left))
+                   or (f.op in ("is", "eq") and not f.pos and f.right is not None and _is_none(strip_cast(f.right)) and accepted(f.left))
+                   for f in h.facts())
+
+    keys = list(dict.fromkeys([*direct, *paths]))
+    for k in keys:
+        node, d_ok, d_facts = direct.get(k, (None, None, None))
+        if node is None:
+            node = enclosing_stmt(paths[k][0]) if not isinstance(paths[k][0], ast.Call) else paths[k][0]
+        _decide(ctx, "data-origin", pc, node, d_ok, None if w is None else paths.get(k, (None, []))[1], authenticated,
+                f"`{norm(node)[:40]}` on an originator circuit happens only after incoming_crypto accepted the cell",
+                reason.format(c=norm(node)[:40]), d_facts)
+    ctx.floor("data-origin.accounting", len(keys), 2)
     # per-instance state of routing objects is created in __init__ (a class-level deque/list/dict would be shared by all circuits)
     ro = ctx.repo.cls("RoutingObject", "ipv8/messaging/anonymization/tunnel.py")
     for c in [ro, *ro.all_subclasses()]:
@@ -589,56 +998,1414 @@ def rule_unkeyed_circuit(ctx: Ctx) -> None:
     ic = ctx.repo.method("PythonCryptoEndpoint", "incoming_crypto", "ipv8/messaging/anonymization/crypto.py")
     cfg = ctx.cfg(ic)
 
-    def hops_of_own_circuit(e) -> bool:
-        e = resolve(ic, e)
-        if not (isinstance(e, ast.Attribute) and e.attr in ("hops", "_hops")):
-            return False
-        base = resolve(ic, e.value)
-        return isinstance(base, ast.Call) and chain(base.func) in ("self.circuits.get",) or \
-            (isinstance(base, ast.Subscript) and chain(base.value) == "self.circuits")
+    def preds(res):
+        """the three kinds of facts that contradict `own circuit exists, has no hop, cell is not plaintext`; res resolves a local"""
+        def hops_of_own_circuit(e) -> bool:
+            e = res(e)
+            while isinstance(e, ast.Call) and isinstance(e.func, ast.Name) and e.func.id in ("tuple", "list") and len(e.args) == 1 and not e.keywords:
+                e = res(e.args[0])              # a copy of the hop sequence has the same length and elements
+            if not (isinstance(e, ast.Attribute) and e.attr in ("hops", "_hops")):
+                return False
+            base = res(e.value)
+            return isinstance(base, ast.Call) and chain(base.func) in ("self.circuits.get",) or \
+                (isinstance(base, ast.Subscript) and chain(base.value) == "self.circuits")
 
-    def nonempty_fact(f) -> bool:
-        if f.op == "truthy" and f.pos:
-            if hops_of_own_circuit(f.left):
-                return True
-            l = resolve(ic, f.left)
-            return isinstance(l, ast.Call) and call_name(l) == "len" and l.args and hops_of_own_circuit(l.args[0])
         def is_len(x):
-            x = resolve(ic, x)
+            x = res(x)
             return isinstance(x, ast.Call) and call_name(x) == "len" and x.args and hops_of_own_circuit(x.args[0])
-        if f.op == "lt" and f.pos and const_value(f.left) == 0 and is_len(f.right):
-            return True                                   # 0 < len(hops)
-        if f.op == "lt" and not f.pos and is_len(f.left) and const_value(f.right) == 1:
-            return True                                   # not len(hops) < 1
-        if f.op == "eq" and not f.pos and ((is_len(f.left) and const_value(f.right) == 0) or (is_len(f.right) and const_value(f.left) == 0)):
-            return True
-        return False
 
-    def plaintext_fact(f) -> bool:
-        return f.op == "truthy" and f.pos and (chain(resolve(ic, f.left)) or "").endswith(".plaintext")
+        def nonempty_fact(f) -> bool:
+            if f.op == "truthy" and f.pos:
+                return hops_of_own_circuit(f.left) or bool(is_len(f.left))
+            if f.op == "lt" and f.pos and const_value(f.left) == 0 and is_len(f.right):
+                return True                                   # 0 < len(hops)
+            if f.op == "lt" and not f.pos and is_len(f.left) and const_value(f.right) == 1:
+                return True                                   # not len(hops) < 1
+            if f.op == "eq" and not f.pos and ((is_len(f.left) and const_value(f.right) == 0) or (is_len(f.right) and const_value(f.left) == 0)):
+                return True
+            return False
 
-    sites = []
+        def plaintext_fact(f) -> bool:
+            return f.op == "truthy" and f.pos and (chain(res(f.left)) or "").endswith(".plaintext")
+
+        def own_circuit_absent(f) -> bool:
+            l = res(f.left)
+            is_own = isinstance(l, ast.Call) and chain(l.func) == "self.circuits.get"
+            if not is_own:
+                return False
+            return (f.op == "truthy" and not f.pos) or (f.op == "is" and const_value(f.right) is None and f.pos)
+
+        return hops_of_own_circuit, lambda f: nonempty_fact(f) or plaintext_fact(f) or own_circuit_absent(f)
+
+    hops_of_own_circuit, contradicts = preds(lambda e: resolve(ic, e))
+    x_hops, x_contradicts = preds(strip_cast)
+    direct = []
     for c in calls(ic):
         if call_name(c) != "decrypt_cell":
             continue
         for a in c.args:
             if isinstance(a, ast.Starred) and hops_of_own_circuit(a.value):
-                sites.append(c)
-    ctx.anchor(sites, "decrypt_cell(cell, BACKWARD, *circuit.hops) in incoming_crypto")
-    def own_circuit_absent(f) -> bool:
-        l = resolve(ic, f.left)
-        is_own = isinstance(l, ast.Call) and chain(l.func) == "self.circuits.get"
-        if not is_own:
-            return False
-        return (f.op == "truthy" and not f.pos) or (f.op == "is" and const_value(f.right) is None and f.pos)
+                direct.append(c)
+    # the layers may be chosen somewhere else (a generator / helper yielding (direction, hops), a local bound on several paths):
+    # a decrypt_cell call counts on the paths where its starred operand denotes the hops of the own circuit
+    groups = _call_groups(ctx, ic, lambda ch, f: "decrypt_cell" if isinstance(f, ast.Attribute) and f.attr == "decrypt_cell" else None)
+    sites = {(id(c), "decrypt_cell"): c for c in direct}
+    own_paths: dict = {}
+    for k, (orig, _nm, hits) in (groups or {}).items():
+        hs = [h for h in hits if any(isinstance(a, ast.Starred) and x_hops(a.value) for a in h.node().args)]
+        if hs:
+            sites.setdefault(k, orig)
+            own_paths[k] = hs
+    ctx.anchor(list(sites), "decrypt_cell(cell, BACKWARD, *circuit.hops) in incoming_crypto")
+    for key, c in sites.items():
+        d_ok = d_facts = None
+        if any(c is x for x in direct):
+            # assume: the circuit exists, has no hop, and the cell is not plaintext -> the layer removal must be unreachable
+            d_ok = unreachable_assuming(cfg, c, contradicts)
+            d_facts = [str(f) for f in facts_at(cfg, c)]
+        _decide(ctx, "keys-required", ic, c, d_ok, None if groups is None else own_paths.get(key, []),
+                lambda h: any(x_contradicts(f) for f in h.facts()),
+                "layers of an own circuit are removed only when the circuit has at least one keyed hop (or the cell is the plaintext created)",
+                "an own circuit without verified hops has no keys: removing zero layers accepts any non-plaintext cell naming its id, so a third party "
+                "that knows the circuit id has data delivered as if it came through the circuit", d_facts)
 
-    for c in sites:
-        fs = facts_at(cfg, c)
-        # assume: the circuit exists, has no hop, and the cell is not plaintext -> the layer removal must be unreachable
-        ok = unreachable_assuming(cfg, c, lambda f: nonempty_fact(f) or plaintext_fact(f) or own_circuit_absent(f))
-        ctx.check(ok, "keys-required", ic, c, "layers of an own circuit are removed only when the circuit has at least one keyed hop (or the cell is the plaintext created)",
-                  "an own circuit without verified hops has no keys: removing zero layers accepts any non-plaintext cell naming its id, so a third party "
-                  "that knows the circuit id has data delivered as if it came through the circuit", [str(f) for f in fs])
+
+# ---------------------------------------------------------------------------------------------------------------------
+# Path-sensitive symbolic walk.
+#
+# The rules below ask "which tests have been passed (and with which outcome) whenever THIS call / store is executed, and
+# what do its operands denote?".  The CFG facts of the engine answer that for one function whose guard is written as
+# branch conditions in the function itself.  The walk answers it for every spelling that computes the same thing: it
+# enumerates the execution paths of the function, keeps for every local the expression it was bound to (written in terms
+# of the function's inputs - parameters as they were on entry, self.<state>), folds tests over constants (decision tags,
+# flags, `x is None` on a literal), unrolls loops over literal tuples (dispatch tables), steps through generator helpers
+# in lock-step with the consuming loop and follows calls into private helpers with the parameters bound to the caller's
+# arguments - including helpers that return a decision which the caller then acts on.  A site is reported once per path
+# together with the (expanded) atoms decided on that path.  Nothing is executed; every step is a syntactic substitution.
+# ---------------------------------------------------------------------------------------------------------------------
+_SYM_LIMIT = 20000
+_DICT_TABLES = ("self.circuits", "self.relay_from_to", "self.exit_sockets", "self.relays")
+_NOT_STEPPED_INTO = {"_generate_circuit_id"}        # its call IS the provenance the rules look for (decided on its own)
+
+
+class _Frame:
+    __slots__ = ("fi", "env", "gen")
+
+    def __init__(self, fi, env, gen=False):
+        self.fi, self.env, self.gen = fi, env, gen
+
+
+class _State:
+    __slots__ = ("frames", "conds", "seen", "recent")
+
+    def __init__(self, frames, conds, seen, recent=None):
+        self.frames, self.conds, self.seen = frames, conds, seen
+        self.recent = recent if recent is not None else {}      # text of expanded atom -> outcome, since the last statement with effects
+
+    @property
+    def env(self):
+        return self.frames[-1].env
+
+    @property
+    def fi(self):
+        return self.frames[-1].fi
+
+    def with_frames(self, frames):
+        return _State(frames, self.conds, self.seen, self.recent)
+
+    def bind(self, name, value):
+        fr = self.frames[-1]
+        env = dict(fr.env)
+        env[name] = value
+        return self.with_frames((*self.frames[:-1], _Frame(fr.fi, env, fr.gen)))
+
+    def cond(self, atom, pol, key=None):
+        seen = self.seen
+        if key is not None:
+            seen = dict(seen)
+            seen[key] = pol
+        recent = dict(self.recent)
+        recent[norm(atom)] = pol
+        return _State(self.frames, (*self.conds, (atom, pol)), seen, recent)
+
+    def forget_recent(self):
+        return self if not self.recent else _State(self.frames, self.conds, self.seen, {})
+
+    def push(self, fi, env, gen=False):
+        return self.with_frames((*self.frames, _Frame(fi, env, gen)))
+
+    def pop(self):
+        return self.with_frames(self.frames[:-1])
+
+
+def _is_cast(e) -> bool:
+    return isinstance(e, ast.Call) and isinstance(e.func, ast.Name) and e.func.id == "cast" and len(e.args) == 2 and not e.keywords
+
+
+def _lit_index(e):
+    """{'a': f, 'b': g}['a'] -> f ; (x, y)[1] -> y   (literal containers indexed by a constant)"""
+    if isinstance(e, ast.Subscript) and isinstance(e.slice, ast.Constant):
+        v = e.value
+        if isinstance(v, ast.Dict) and all(k is not None for k in v.keys):
+            for k, val in zip(v.keys, v.values):
+                if isinstance(k, ast.Constant) and k.value == e.slice.value and type(k.value) is type(e.slice.value):
+                    return val
+        if isinstance(v, (ast.Tuple, ast.List)) and isinstance(e.slice.value, int) and not isinstance(e.slice.value, bool) \
+                and not any(isinstance(x, ast.Starred) for x in v.elts) and -len(v.elts) <= e.slice.value < len(v.elts):
+            return v.elts[e.slice.value]
+    return e
+
+
+def _sx(e, env):
+    """e with every local replaced by the expression it is bound to (cast() and await are transparent)."""
+    if not isinstance(e, ast.AST):
+        return e
+    if isinstance(e, ast.Name):
+        return env.get(e.id, e) if isinstance(e.ctx, ast.Load) else e
+    if _is_cast(e):
+        return _sx(e.args[1], env)
+    if isinstance(e, (ast.NamedExpr, ast.Await)):
+        return _sx(e.value, env)
+    if isinstance(e, (ast.ListComp, ast.SetComp, ast.GeneratorExp, ast.DictComp)):
+        bound = {n.id for g in e.generators for n in ast.walk(g.target) if isinstance(n, ast.Name)}
+        if bound & env.keys():
+            env = {k: v for k, v in env.items() if k not in bound}
+    elif isinstance(e, ast.Lambda):
+        a = e.args
+        bound = {x.arg for x in [*a.posonlyargs, *a.args, *a.kwonlyargs, *([a.vararg] if a.vararg else []), *([a.kwarg] if a.kwarg else [])]}
+        if bound & env.keys():
+            env = {k: v for k, v in env.items() if k not in bound}
+    changed = False
+    vals = {}
+    for f in e._fields:
+        if not hasattr(e, f):
+            continue
+        v = getattr(e, f)
+        if isinstance(v, list):
+            nv = [_sx(x, env) for x in v]
+            if any(a is not b for a, b in zip(nv, v)):
+                changed = True
+        elif isinstance(v, ast.AST):
+            nv = _sx(v, env)
+            if nv is not v:
+                changed = True
+        else:
+            nv = v
+        vals[f] = nv
+    if changed:
+        new = type(e)(**vals)
+        ast.copy_location(new, e)
+        e = new
+    return _lit_index(e)
+
+
+def _assigned_names(nodes) -> set[str]:
+    out = set()
+    for s in nodes:
+        for n in walk_no_nested(s):
+            if isinstance(n, ast.Name) and isinstance(n.ctx, (ast.Store, ast.Del)):
+                out.add(n.id)
+            elif isinstance(n, ast.ExceptHandler) and n.name:
+                out.add(n.name)
+            elif isinstance(n, (ast.FunctionDef, ast.AsyncFunctionDef, ast.ClassDef)) and n is not s:
+                out.add(n.name)
+    return out
+
+
+def _fold(atom):
+    """truth value of an atom that is decided by constants alone, else None"""
+    if isinstance(atom, ast.Constant):
+        return bool(atom.value)
+    if isinstance(atom, (ast.Tuple, ast.List, ast.Set)) and not any(isinstance(x, ast.Starred) for x in atom.elts):
+        return bool(atom.elts)
+    if isinstance(atom, ast.Dict):
+        return bool(atom.keys) if all(k is not None for k in atom.keys) else None
+    if isinstance(atom, ast.Compare) and len(atom.ops) == 1:
+        l, op, r = atom.left, atom.ops[0], atom.comparators[0]
+        lv, rv = const_value(l), const_value(r)
+        lc, rc = lv is not NOCONST, rv is not NOCONST
+        if lc and rc:
+            try:
+                if isinstance(op, ast.Eq):
+                    return lv == rv
+                if isinstance(op, ast.NotEq):
+                    return lv != rv
+                if isinstance(op, (ast.Is, ast.IsNot)) and (lv is None or rv is None or isinstance(lv, bool) or isinstance(rv, bool)):
+                    return (lv is rv) if isinstance(op, ast.Is) else (lv is not rv)
+                if isinstance(op, (ast.In, ast.NotIn)) and isinstance(rv, tuple):
+                    return (lv in rv) if isinstance(op, ast.In) else (lv not in rv)
+            except Exception:  # noqa: BLE001
+                return None
+        if isinstance(op, (ast.Is, ast.IsNot)):
+            # <a freshly built object / literal> is None
+            for a, bv, bc in ((l, rv, rc), (r, lv, lc)):
+                if bc and bv is None and isinstance(a, (ast.Tuple, ast.List, ast.Dict, ast.Set, ast.JoinedStr, ast.Lambda,
+                                                        ast.ListComp, ast.DictComp, ast.SetComp, ast.GeneratorExp)):
+                    return isinstance(op, ast.IsNot)
+    return None
+
+
+_SEQ_WRAPPERS = ("set", "list", "tuple", "frozenset", "sorted", "iter")
+
+
+def _union_members(e) -> list | None:
+    """the containers whose union e denotes (`A | B`, `chain(A, B)`, `{*A, *B}`, `(*A, *B)`), else None"""
+    e = strip_cast(e)
+    if isinstance(e, ast.BinOp) and isinstance(e.op, (ast.BitOr, ast.Add)):
+        a, b = _union_members(e.left) or [e.left], _union_members(e.right) or [e.right]
+        return a + b
+    if isinstance(e, ast.Call) and (chain(e.func) or "").rsplit(".", 1)[-1] == "chain" and e.args and not e.keywords \
+            and not any(isinstance(a, ast.Starred) for a in e.args):
+        return [x for a in e.args for x in (_union_members(a) or [a])]
+    if isinstance(e, (ast.Set, ast.Tuple, ast.List)) and e.elts and all(isinstance(x, ast.Starred) for x in e.elts):
+        return [y for x in e.elts for y in (_union_members(x.value) or [x.value])]
+    if isinstance(e, ast.Dict) and e.keys and all(k is None for k in e.keys):
+        return [y for x in e.values for y in (_union_members(x) or [x])]
+    if isinstance(e, ast.Call) and isinstance(e.func, ast.Name) and e.func.id in _SEQ_WRAPPERS and len(e.args) == 1 and not e.keywords:
+        return _union_members(e.args[0])
+    if isinstance(e, ast.Call) and isinstance(e.func, ast.Attribute) and e.func.attr == "union" and e.args and not e.keywords:
+        return [x for a in [e.func.value, *e.args] for x in (_union_members(a) or [a])]
+    return None
+
+
+def _container(e):
+    """`T.keys()`, `set(T)`, `list(T)` test the same membership as T"""
+    e = strip_cast(e)
+    while True:
+        if isinstance(e, ast.Call) and isinstance(e.func, ast.Attribute) and e.func.attr == "keys" and not e.args and not e.keywords:
+            e = strip_cast(e.func.value)
+        elif isinstance(e, ast.Call) and isinstance(e.func, ast.Name) and e.func.id in _SEQ_WRAPPERS and len(e.args) == 1 and not e.keywords:
+            e = strip_cast(e.args[0])
+        else:
+            return e
+
+
+def _quantifier(e):
+    """any(<elt> for x in (a, b, c)) / all(...) / any([p, q]) over a literal sequence -> the equivalent or/and expression"""
+    if not (isinstance(e, ast.Call) and isinstance(e.func, ast.Name) and e.func.id in ("any", "all") and len(e.args) == 1 and not e.keywords):
+        return None
+    op = ast.Or() if e.func.id == "any" else ast.And()
+    a = e.args[0]
+    if isinstance(a, (ast.Tuple, ast.List, ast.Set)) and not any(isinstance(x, ast.Starred) for x in a.elts):
+        if not a.elts:
+            return ast.Constant(value=e.func.id == "all")
+        return ast.BoolOp(op=op, values=list(a.elts)) if len(a.elts) > 1 else a.elts[0]
+    if isinstance(a, (ast.GeneratorExp, ast.ListComp, ast.SetComp)) and len(a.generators) == 1:
+        g = a.generators[0]
+        it = strip_cast(g.iter)
+        if g.is_async or not isinstance(it, (ast.Tuple, ast.List, ast.Set)) or any(isinstance(x, ast.Starred) for x in it.elts):
+            return None
+        vals = []
+        for x in it.elts:
+            env = _bind_pattern(g.target, x)
+            if env is None:
+                return None
+            v = _sx(a.elt, env)
+            for c in g.ifs:
+                c2 = _sx(c, env)
+                # any: the element counts only when the filter holds; all: a filtered-out element is vacuously fine
+                v = ast.BoolOp(op=ast.And(), values=[c2, v]) if e.func.id == "any" else \
+                    ast.BoolOp(op=ast.Or(), values=[ast.UnaryOp(op=ast.Not(), operand=c2), v])
+            vals.append(v)
+        if not vals:
+            return ast.Constant(value=e.func.id == "all")
+        return ast.BoolOp(op=op, values=vals) if len(vals) > 1 else vals[0]
+    return None
+
+
+def _bind_pattern(target, value) -> dict | None:
+    """{name: expr} for `target = value` (tuple targets against literal tuples element-wise, else by index)"""
+    if isinstance(target, ast.Name):
+        return {target.id: value}
+    if isinstance(target, (ast.Tuple, ast.List)):
+        if any(isinstance(t, ast.Starred) for t in target.elts):
+            return None
+        out = {}
+        lit = isinstance(value, (ast.Tuple, ast.List)) and len(value.elts) == len(target.elts) \
+            and not any(isinstance(x, ast.Starred) for x in value.elts)
+        for i, t in enumerate(target.elts):
+            v = value.elts[i] if lit else ast.Subscript(value=value, slice=ast.Constant(value=i), ctx=ast.Load())
+            sub = _bind_pattern(t, v)
+            if sub is None:
+                return None
+            out.update(sub)
+        return out
+    return {}        # attribute / subscript target: a heap store, no local changes
+
+
+class _Hit:
+    """one execution of a call / store on one path"""
+    __slots__ = ("orig", "st", "kind", "_func", "_facts", "_node")
+
+    def __init__(self, orig, st, kind, expanded: bool = False):
+        self.orig, self.st, self.kind = orig, st, kind
+        self._func = self._facts = None
+        self._node = orig if expanded else None          # body of a lambda value: its locals were expanded where it was created
+
+    @property
+    def fi(self):
+        return self.st.fi
+
+    def funcs(self) -> list:
+        """what the callee expression denotes on this path (a set when it is picked from a literal table by a non-constant key)"""
+        if self._func is None:
+            f = self._node.func if self._node is not None and self.kind == "call" else _sx(self.orig.func, self.st.env)
+            self._func = _callee_alternatives(_settle(f, self.st.recent))
+        return self._func
+
+    def chains(self) -> list[str]:
+        return [c for c in (chain(f) for f in self.funcs()) if c]
+
+    def names(self) -> list[str]:
+        return [f.attr if isinstance(f, ast.Attribute) else f.id for f in self.funcs() if isinstance(f, (ast.Attribute, ast.Name))]
+
+    def node(self):
+        """the call / store target with all locals expanded"""
+        if self._node is None:
+            self._node = _sx(self.orig, self.st.env)
+        return self._node
+
+    def facts(self):
+        if self._facts is None:
+            from ..match import expr_context_facts, fact_of
+            out = [fact_of(a, p) for a, p in self.st.conds]
+            if self.kind == "call":
+                for f in expr_context_facts(self.orig):
+                    out.append(fact_of(_sx(f.atom, self.st.env), _atom_polarity(f)))
+            self._facts = out
+        return self._facts
+
+    def via(self) -> str:
+        return " <- ".join(fr.fi.qualname for fr in reversed(self.st.frames))
+
+
+def _atom_polarity(f) -> bool:
+    """the truth value of f.atom that fact f states (fact_of flips .pos for !=, not in, is not, >=, <=)"""
+    from ..match import fact_of
+    return fact_of(f.atom, True).pos == f.pos
+
+
+def _callee_alternatives(f) -> list:
+    f = strip_cast(f)
+    if isinstance(f, ast.IfExp):
+        return _callee_alternatives(f.body) + _callee_alternatives(f.orelse)
+    if isinstance(f, ast.Subscript) and isinstance(f.value, ast.Dict) and all(k is not None for k in f.value.keys):
+        return [x for v in f.value.values for x in _callee_alternatives(v)]
+    if isinstance(f, ast.Subscript) and isinstance(f.value, (ast.Tuple, ast.List)):
+        return [x for v in f.value.elts for x in _callee_alternatives(v)]
+    if isinstance(f, ast.Call) and isinstance(f.func, ast.Attribute) and f.func.attr == "get" and isinstance(f.func.value, ast.Dict) \
+            and all(k is not None for k in f.func.value.keys):
+        return [x for v in [*f.func.value.values, *f.args[1:2]] for x in _callee_alternatives(v)]
+    return [f]
+
+
+class _Sym:
+    def __init__(self, ctx: Ctx, fi: FuncInfo, follow=None, force=()):
+        self.ctx, self.repo, self.top = ctx, ctx.repo, fi
+        self.follow = follow
+        self.force = {id(f.node) for f in force}
+        self.hits: list[_Hit] = []
+        self.steps = 0
+        self.fresh = 0
+        self.yield_k = {}
+        self._mutated = {}
+        st = _State((_Frame(fi, {}),), (), {})
+        self.ends = self.block(fi.node.body, st)
+
+    # ------------------------------------------------------------------ helpers
+    def tick(self):
+        self.steps += 1
+        if self.steps > _SYM_LIMIT:
+            raise AnalysisError(f"undecided: more than {_SYM_LIMIT} symbolic steps in {self.top.qualname}")
+
+    def opaque(self, name: str):
+        self.fresh += 1
+        return ast.Name(id=f"{name}${self.fresh}", ctx=ast.Load())
+
+    def havoc(self, st: _State, names) -> _State:
+        names = [n for n in names]
+        if not names:
+            return st
+        fr = st.frames[-1]
+        env = dict(fr.env)
+        for n in names:
+            env[n] = self.opaque(n)
+        return st.with_frames((*st.frames[:-1], _Frame(fr.fi, env, fr.gen)))
+
+    def bind_all(self, st: _State, mapping: dict) -> _State:
+        if not mapping:
+            return st
+        fr = st.frames[-1]
+        env = dict(fr.env)
+        env.update(mapping)
+        return st.with_frames((*st.frames[:-1], _Frame(fr.fi, env, fr.gen)))
+
+    def walrus(self, e, st: _State) -> _State:
+        ws = [n for n in walk_no_nested(e) if isinstance(n, ast.NamedExpr)]
+        ws.sort(key=lambda n: (n.lineno, n.col_offset))
+        for w in ws:
+            st = st.bind(w.target.id, _sx(w.value, st.env))
+        return st
+
+    def record(self, e, st: _State) -> None:
+        if e is None:
+            return
+        for n in walk_no_nested(e):
+            if isinstance(n, ast.Call):
+                self.hits.append(_Hit(n, st, "call"))
+
+    # ------------------------------------------------------------------ calls
+    def target_of(self, call: ast.Call, st: _State, awaited: bool):
+        f = call.func
+        fi = st.fi
+        if isinstance(f, ast.Attribute) and isinstance(f.value, ast.Name) and f.value.id == "self":
+            tg = self.repo.resolve_call(fi, call)
+            if fi is not self.top and self.top.cls is not None and fi.cls is not None:
+                # `self` is the object the walk started on
+                tg2 = self.repo.dispatch(self.top.cls, f.attr)
+                tg = tg2 or tg
+        elif isinstance(f, ast.Name) and f.id not in st.env:
+            tg = self.repo.resolve_call(fi, call)
+        else:
+            return None
+        tg = [t for t in tg if isinstance(t, FuncInfo)]
+        if len(tg) != 1:
+            return None
+        t = tg[0]
+        if any(fr.fi.node is t.node for fr in st.frames) or len(st.frames) > 5:
+            return None
+        forced = id(t.node) in self.force
+        if not forced:
+            if not t.module.relpath.startswith(PKG) or not t.name.startswith("_") or t.name.startswith("__") or t.name in _NOT_STEPPED_INTO:
+                return None
+            if self.follow is not None and not self.follow(t):
+                return None
+        if any(d not in ("staticmethod",) for d in t.decorator_names()) and not forced:
+            return None
+        a = t.node.args
+        if a.vararg or a.kwarg or any(isinstance(x, ast.Starred) for x in call.args) or any(k.arg is None for k in call.keywords):
+            return None
+        if t.is_async and not awaited:
+            return None
+        if any(isinstance(n, ast.Nonlocal) for n in walk_no_nested(t.node)):
+            return None
+        return t
+
+    def bind_params(self, t: FuncInfo, call: ast.Call, st: _State) -> dict | None:
+        a = t.node.args
+        allpos = [x.arg for x in [*a.posonlyargs, *a.args]]
+        pos = allpos
+        if t.cls is not None and "staticmethod" not in t.decorator_names() and isinstance(call.func, ast.Attribute):
+            if not pos:
+                return None
+            pos = pos[1:]                       # self stays `self`: the receiver is the object the walk started on
+        names = pos + [x.arg for x in a.kwonlyargs]
+        env: dict = {}
+        if parent_is_closure(t, st.fi):
+            # a local function reads the enclosing function's locals as they are when it is called
+            own = _assigned_names(t.node.body) | set(names)
+            env.update({k: v for k, v in st.env.items() if k not in own})
+        args = [_sx(x, st.env) for x in call.args]
+        if len(args) > len(pos):
+            return None
+        given = {}
+        for n, v in zip(pos, args):
+            given[n] = v
+        for k in call.keywords:
+            if k.arg not in names or k.arg in given:
+                return None
+            given[k.arg] = _sx(k.value, st.env)
+        defaults = dict(zip(allpos[len(allpos) - len(a.defaults):], a.defaults)) if a.defaults else {}
+        defaults.update({x.arg: d for x, d in zip(a.kwonlyargs, a.kw_defaults) if d is not None})
+        for n in names:
+            if n in given:
+                env[n] = given[n]
+            elif n in defaults:
+                env[n] = defaults[n]
+            else:
+                return None
+        return env
+
+    def invoke(self, t: FuncInfo, call: ast.Call, st: _State) -> list | None:
+        """[(state back in the caller, returned expression)] or None when the call cannot be stepped into"""
+        env = self.bind_params(t, call, st)
+        if env is None:
+            return None
+        self.ctx.functions.add(t.where)
+        out = []
+        for kind, s, v in self.block(t.node.body, st.push(t, env)):
+            if kind == "next":
+                out.append((s.pop(), ast.Constant(value=None)))
+            elif kind == "return":
+                out.append((s.pop(), v if v is not None else ast.Constant(value=None)))
+        return out
+
+    def is_generator(self, t: FuncInfo) -> bool:
+        return any(isinstance(n, (ast.Yield, ast.YieldFrom)) for n in walk_no_nested(t.node) if n is not t.node)
+
+    def value(self, e, st: _State) -> list:
+        """[(state, expanded value)] of evaluating e - forks on conditional expressions and on the paths of helpers it calls"""
+        self.tick()
+        awaited = False
+        e = strip_cast(e)
+        if isinstance(e, ast.Await):
+            awaited = True
+            e = strip_cast(e.value)
+        if isinstance(e, ast.NamedExpr):
+            e = strip_cast(e.value)
+        if isinstance(e, ast.IfExp):
+            out = []
+            for s, o in self.branch(e.test, st):
+                out.extend(self.value(e.body if o else e.orelse, s))
+            return out
+        if isinstance(e, ast.Call):
+            e = self.direct_call(e, st)
+            t = self.target_of(e, st, awaited)
+            if t is not None and not self.is_generator(t):
+                r = self.invoke(t, e, st)
+                if r is not None:
+                    return r
+            lam = _sx(e.func, st.env) if isinstance(e.func, ast.Name) and e.func.id in st.env else None
+            if isinstance(lam, ast.Lambda) and not e.keywords and not any(isinstance(a, ast.Starred) for a in e.args):
+                a = lam.args
+                ps = [x.arg for x in [*a.posonlyargs, *a.args]]
+                if not (a.vararg or a.kwarg or a.kwonlyargs or a.defaults) and len(ps) == len(e.args):
+                    # the lambda's free names were expanded when it was bound; only its parameters are left to substitute
+                    body = _sx(lam.body, dict(zip(ps, [_sx(x, st.env) for x in e.args])))
+                    for n in walk_no_nested(body):
+                        if isinstance(n, ast.Call):
+                            self.hits.append(_Hit(n, st, "call", True))
+                    return [(st, body)]
+        if isinstance(e, (ast.Tuple, ast.List)) and any(self.interesting(x, st) for x in e.elts):
+            combos = [(st, [])]
+            for x in e.elts:
+                nxt = []
+                for s, acc in combos:
+                    if isinstance(x, ast.Starred):
+                        nxt.append((s, [*acc, _sx(x, s.env)]))
+                    else:
+                        for s2, v in self.value(x, s):
+                            nxt.append((s2, [*acc, v]))
+                combos = nxt
+            return [(s, ast.copy_location(type(e)(elts=acc, ctx=ast.Load()), e)) for s, acc in combos]
+        if isinstance(e, ast.Compare) and len(e.ops) == 1 and any(self.interesting(x, st) for x in (e.left, e.comparators[0])):
+            out = []
+            for s, l in self.value(e.left, st):
+                for s2, r in self.value(e.comparators[0], s):
+                    out.append((s2, ast.copy_location(ast.Compare(left=l, ops=list(e.ops), comparators=[r]), e)))
+            return out
+        if isinstance(e, ast.Attribute) and self.interesting(e.value, st):
+            return [(s, ast.copy_location(ast.Attribute(value=v, attr=e.attr, ctx=ast.Load()), e)) for s, v in self.value(e.value, st)]
+        if isinstance(e, ast.Subscript) and self.interesting(e.value, st):
+            return [(s, _lit_index(ast.copy_location(ast.Subscript(value=v, slice=_sx(e.slice, s.env), ctx=ast.Load()), e)))
+                    for s, v in self.value(e.value, st)]
+        return [(st, _sx(e, st.env))]
+
+    def direct_call(self, e: ast.Call, st: _State) -> ast.Call:
+        """`table[kind](...)` / `step(...)` with the callee picked from a literal table or bound to a local: the call of what it denotes"""
+        f = e.func
+        if isinstance(f, ast.Attribute) and isinstance(f.value, ast.Name) and f.value.id == "self":
+            return e
+        if isinstance(f, ast.Name) and f.id not in st.env:
+            return e
+        alts = _callee_alternatives(_settle(_sx(f, st.env), st.recent))
+        if len(alts) == 1 and isinstance(alts[0], ast.Attribute) and isinstance(alts[0].value, ast.Name) and alts[0].value.id == "self":
+            return ast.copy_location(ast.Call(func=alts[0], args=e.args, keywords=e.keywords), e)
+        return e
+
+    def interesting(self, e, st: _State) -> bool:
+        e = strip_cast(e)
+        aw = isinstance(e, ast.Await)
+        if aw:
+            e = strip_cast(e.value)
+        if isinstance(e, ast.IfExp):
+            return True
+        if isinstance(e, ast.Call):
+            e = self.direct_call(e, st)
+            t = self.target_of(e, st, aw)
+            return t is not None and not self.is_generator(t)
+        if isinstance(e, (ast.Attribute, ast.Subscript)):
+            return self.interesting(e.value, st)
+        return False
+
+    # ------------------------------------------------------------------ conditions
+    def branch(self, test, st: _State, expanded: bool = False) -> list:
+        """[(state, outcome)] for every way `test` can be decided; atoms are recorded (expanded) in the state"""
+        self.tick()
+        test = strip_cast(test)
+        if isinstance(test, ast.UnaryOp) and isinstance(test.op, ast.Not):
+            return [(s, not o) for s, o in self.branch(test.operand, st, expanded)]
+        if isinstance(test, ast.BoolOp):
+            stop = not isinstance(test.op, ast.And)         # `or` stops at the first true operand, `and` at the first false
+            done, pending = [], [st]
+            for v in test.values:
+                nxt = []
+                for s in pending:
+                    for s2, o in self.branch(v, s, expanded):
+                        (done if o is stop else nxt).append((s2, o) if o is stop else s2)
+                pending = nxt
+            return done + [(s, not stop) for s in pending]
+        if isinstance(test, ast.Call) and isinstance(test.func, ast.Name) and test.func.id == "bool" and len(test.args) == 1 and not test.keywords:
+            return self.branch(test.args[0], st, expanded)
+        if isinstance(test, ast.IfExp):
+            out = []
+            for s, o in self.branch(test.test, st, expanded):
+                out.extend(self.branch(test.body if o else test.orelse, s, expanded))
+            return out
+        if expanded:
+            vals = [(st, test)]
+            key = None
+        else:
+            st = self.walrus(test, st)
+            key = self.stable_key(test, st)
+            if key is not None and key in st.seen:
+                return [(st, st.seen[key])]
+            vals = self.value(test, st)
+        out = []
+        for s, v in vals:
+            v = strip_cast(v)
+            q = _quantifier(v)
+            if q is not None:
+                v = q
+            elif isinstance(v, ast.Compare) and len(v.ops) == 1 and isinstance(v.ops[0], (ast.In, ast.NotIn)):
+                us = _union_members(v.comparators[0])
+                if us and len(us) > 1:
+                    orr = ast.BoolOp(op=ast.Or(), values=[ast.Compare(left=v.left, ops=[ast.In()], comparators=[u]) for u in us])
+                    v = orr if isinstance(v.ops[0], ast.In) else ast.UnaryOp(op=ast.Not(), operand=orr)
+            if isinstance(v, (ast.BoolOp, ast.IfExp)) or (isinstance(v, ast.UnaryOp) and isinstance(v.op, ast.Not)) or \
+                    (isinstance(v, ast.Call) and isinstance(v.func, ast.Name) and v.func.id == "bool" and len(v.args) == 1):
+                out.extend(self.branch(v, s, True))
+                continue
+            c = _fold(v)
+            if c is None:
+                c = s.recent.get(norm(v))       # the same expression was decided earlier on this path and nothing happened since
+            if c is not None:
+                out.append((s, c))
+                continue
+            out.append((s.cond(v, True, key), True))
+            out.append((s.cond(v, False, key), False))
+        return out
+
+    def stable_key(self, atom, st: _State):
+        """identity of an atom whose value cannot change while the locals it reads keep their binding (names, constants, `is`)"""
+        names = []
+        for n in ast.walk(atom):
+            if isinstance(n, ast.Name):
+                names.append(n.id)
+            elif not isinstance(n, (ast.Constant, ast.Compare, ast.cmpop, ast.expr_context, ast.UnaryOp, ast.unaryop)):
+                return None
+            elif isinstance(n, ast.Compare) and not all(isinstance(o, (ast.Is, ast.IsNot)) for o in n.ops):
+                return None             # == / in / < call user code on mutable objects
+        if any(n in self.mutated(st.fi) for n in names) and not isinstance(atom, ast.Compare):
+            return None                 # truthiness of a container the function itself fills / empties
+        env = st.env
+        # the same test on the same bound values is the same test, whatever the local is called in a helper's frame
+        shape = norm(_sx(atom, {n: ast.Name(id=f"_{i}", ctx=ast.Load()) for i, n in enumerate(dict.fromkeys(names))}))
+        return (shape, tuple(id(env[n]) if n in env else (n, len(st.frames) if st.fi is not self.top else 0)
+                             for n in dict.fromkeys(names)))
+
+    _MUTATORS = ("append", "extend", "add", "update", "pop", "popitem", "remove", "clear", "insert", "discard", "setdefault",
+                 "appendleft", "popleft", "sort", "reverse")
+
+    def mutated(self, fi: FuncInfo) -> set:
+        k = id(fi.node)
+        if k not in self._mutated:
+            out = set()
+            for n in walk_no_nested(fi.node):
+                if isinstance(n, ast.Call) and isinstance(n.func, ast.Attribute) and n.func.attr in self._MUTATORS \
+                        and isinstance(n.func.value, ast.Name):
+                    out.add(n.func.value.id)
+                elif isinstance(n, ast.Subscript) and isinstance(n.ctx, (ast.Store, ast.Del)) and isinstance(n.value, ast.Name):
+                    out.add(n.value.id)
+                elif isinstance(n, ast.AugAssign) and isinstance(n.target, ast.Name):
+                    out.add(n.target.id)
+            self._mutated[k] = out
+        return self._mutated[k]
+
+    # ------------------------------------------------------------------ statements
+    def block(self, stmts, st: _State) -> list:
+        """[(kind, state, value)]: kind in next | return | break | continue | raise | gen-break | gen-return"""
+        cur = [st]
+        out = []
+        for s in stmts:
+            nxt = []
+            simple_effect = not isinstance(s, (ast.If, ast.For, ast.AsyncFor, ast.While, ast.Try, ast.With, ast.AsyncWith, ast.Match)) \
+                and _has_effects(s)
+            for c in cur:
+                for kind, s2, v in self.stmt(s, c):
+                    if simple_effect:
+                        s2 = s2.forget_recent()
+                    if kind == "next":
+                        nxt.append(s2)
+                    else:
+                        out.append((kind, s2, v))
+            cur = nxt
+            if not cur:
+                break
+        return out + [("next", c, None) for c in cur]
+
+    def assign(self, targets, value, st: _State) -> list:
+        st = self.walrus(value, st)
+        self.record(value, st)
+        for t in targets:
+            if not isinstance(t, ast.Name):
+                self.record(t, st)
+        out = []
+        for s, v in self.value(value, st):
+            for t in targets:
+                if isinstance(t, (ast.Subscript, ast.Attribute)):
+                    self.hits.append(_Hit(t, s, "store"))
+            m = {}
+            ok = True
+            for t in targets:
+                b = _bind_pattern(t, v)
+                if b is None:
+                    ok = False
+                    b = {n: self.opaque(n) for n in _assigned_names([t])}
+                m.update(b)
+            s = self.evidence(value, self.escape(value, s))
+            for t in targets:
+                # `d[k] = v` / `o.f = v` on a local bound to a display: the display no longer describes it
+                b = t
+                while isinstance(b, (ast.Subscript, ast.Attribute)):
+                    b = b.value
+                if b is not t and isinstance(b, ast.Name) and isinstance(s.env.get(b.id), (ast.List, ast.Dict, ast.Set, ast.Tuple)):
+                    s = self.havoc(s, [b.id])
+            out.append(("next", self.bind_all(s, m), None))
+        return out
+
+    def evidence(self, e, st: _State) -> _State:
+        """
+        e was evaluated and did not raise.  For the routing tables (plain dicts) that is knowledge: `T[k]` evaluated => k in T;
+        `T.get(k).attr` evaluated => the entry is not None.  (try/except KeyError lookups leave exactly this on their normal path.)
+        """
+        if e is None:
+            return st
+        env = st.env
+        for n in _unconditional(e):
+            if isinstance(n, ast.Subscript) and isinstance(n.ctx, ast.Load):
+                base = _sx(n.value, env)
+                if chain(base) in _DICT_TABLES and not isinstance(n.slice, ast.Slice):
+                    st = st.cond(ast.Compare(left=_sx(n.slice, env), ops=[ast.In()], comparators=[base]), True)
+            elif isinstance(n, ast.Attribute) and isinstance(n.ctx, ast.Load):
+                v = strip_cast(_sx(n.value, env))
+                if isinstance(v, ast.Call) and _entry_of(v, _DICT_TABLES, lambda k: True):
+                    st = st.cond(ast.Compare(left=v, ops=[ast.IsNot()], comparators=[ast.Constant(value=None)]), True)
+        return st
+
+    def escape(self, e, st: _State) -> _State:
+        """
+        A local bound to a list / dict / set display is only as good as the display stays unchanged: `xs.append(v)` on a list display
+        is modelled (the display grows), any other mutator call on it or handing it to a call makes the local unknown.
+        """
+        env = st.env
+        for c in walk_no_nested(e):
+            if not isinstance(c, ast.Call):
+                continue
+            f = c.func
+            if isinstance(f, ast.Attribute) and isinstance(f.value, ast.Name) and f.value.id in env and f.attr in self._MUTATORS:
+                cur = env[f.value.id]
+                if f.attr == "append" and isinstance(cur, ast.List) and len(c.args) == 1 and not c.keywords \
+                        and not isinstance(c.args[0], ast.Starred) and not any(isinstance(x, ast.Starred) for x in cur.elts):
+                    st = st.bind(f.value.id, ast.List(elts=[*cur.elts, _sx(c.args[0], env)], ctx=ast.Load()))
+                else:
+                    st = self.havoc(st, [f.value.id])
+                env = st.env
+            for a in [*c.args, *[k.value for k in c.keywords]]:
+                a = a.value if isinstance(a, ast.Starred) else a
+                if isinstance(a, ast.Name) and isinstance(env.get(a.id), (ast.List, ast.Dict, ast.Set, ast.ListComp, ast.DictComp, ast.SetComp)) \
+                        and not (isinstance(f, ast.Name) and f.id in ("len", "tuple", "list", "set", "sorted", "any", "all", "bool", "iter",
+                                                                         "enumerate", "reversed", "sum", "min", "max", "str", "repr", "frozenset")):
+                    st = self.havoc(st, [a.id])
+                    env = st.env
+        return st
+
+    def stmt(self, s, st: _State) -> list:  # noqa: C901, PLR0911, PLR0912
+        self.tick()
+        if isinstance(s, ast.Assign):
+            return self.assign(s.targets, s.value, st)
+        if isinstance(s, ast.AnnAssign):
+            return self.assign([s.target], s.value, st) if s.value is not None else [("next", st, None)]
+        if isinstance(s, ast.AugAssign):
+            st = self.walrus(s.value, st)
+            self.record(s.value, st)
+            if isinstance(s.target, ast.Name):
+                new = ast.BinOp(left=_sx(ast.Name(id=s.target.id, ctx=ast.Load()), st.env), op=s.op, right=_sx(s.value, st.env))
+                return [("next", st.bind(s.target.id, new), None)]
+            self.record(s.target, st)
+            self.hits.append(_Hit(s.target, st, "store"))
+            return [("next", st, None)]
+        if isinstance(s, ast.Expr):
+            v = s.value
+            if isinstance(v, (ast.Yield, ast.YieldFrom)):
+                return self.do_yield(v, st)
+            if isinstance(v, ast.Await) and isinstance(v.value, (ast.Yield,)):
+                return self.do_yield(v.value, st)
+            st = self.walrus(v, st)
+            self.record(v, st)
+            return [("next", self.evidence(v, self.escape(v, s2)), None) for s2, _ in self.value(v, st)]
+        if isinstance(s, ast.Return):
+            if s.value is None:
+                return [("return", st, None)]
+            st = self.walrus(s.value, st)
+            self.record(s.value, st)
+            return [("return", s2, v) for s2, v in self.value(s.value, st)]
+        if isinstance(s, ast.If):
+            out = []
+            for s2, o in self.cond_stmt(s.test, st):
+                out.extend(self.block(s.body if o else s.orelse, s2))
+            return out
+        if isinstance(s, ast.While):
+            return self.loop(s, st, None)
+        if isinstance(s, (ast.For, ast.AsyncFor)):
+            return self.do_for(s, st)
+        if isinstance(s, (ast.With, ast.AsyncWith)):
+            for i in s.items:
+                st = self.walrus(i.context_expr, st)
+                self.record(i.context_expr, st)
+                if i.optional_vars is not None:
+                    st = self.havoc(st, _assigned_names([i.optional_vars]))
+            return self.block(s.body, st)
+        if isinstance(s, ast.Try) or s.__class__.__name__ == "TryStar":
+            return self.do_try(s, st)
+        if isinstance(s, ast.Raise):
+            self.record(s.exc, st)
+            return [("raise", st, None)]
+        if isinstance(s, ast.Assert):
+            return [("next", s2, None) if o else ("raise", s2, None) for s2, o in self.cond_stmt(s.test, st)]
+        if isinstance(s, ast.Break):
+            return [("break", st, None)]
+        if isinstance(s, ast.Continue):
+            return [("continue", st, None)]
+        if isinstance(s, (ast.FunctionDef, ast.AsyncFunctionDef, ast.ClassDef)):
+            return [("next", _drop(st, s.name) if s.name in st.env else st, None)]
+        if isinstance(s, ast.Delete):
+            for t in s.targets:
+                self.record(t, st)
+                if isinstance(t, (ast.Subscript, ast.Attribute)):
+                    self.hits.append(_Hit(t, st, "store"))
+            return [("next", self.havoc(st, _assigned_names(s.targets)), None)]
+        if isinstance(s, ast.Match):
+            return self.do_match(s, st)
+        if isinstance(s, (ast.Pass, ast.Global, ast.Nonlocal, ast.Import, ast.ImportFrom)):
+            return [("next", st, None)]
+        raise AnalysisError(f"undecided: statement `{head(s)}` not understood by the path walk of {st.fi.qualname}")
+
+    def cond_stmt(self, test, st: _State) -> list:
+        st0 = self.walrus(test, st)
+        # calls inside the atoms are recorded where the atom is evaluated (with the facts of the atoms before it)
+        out = self.branch_recording(test, st0)
+        return [(s.forget_recent(), o) for s, o in out] if _has_effects(test) else out
+
+    def branch_recording(self, test, st: _State) -> list:
+        test = strip_cast(test)
+        if isinstance(test, ast.UnaryOp) and isinstance(test.op, ast.Not):
+            return [(s, not o) for s, o in self.branch_recording(test.operand, st)]
+        if isinstance(test, ast.BoolOp):
+            stop = not isinstance(test.op, ast.And)
+            done, pending = [], [st]
+            for v in test.values:
+                nxt = []
+                for s in pending:
+                    for s2, o in self.branch_recording(v, s):
+                        if o is stop:
+                            done.append((s2, o))
+                        else:
+                            nxt.append(s2)
+                pending = nxt
+            return done + [(s, not stop) for s in pending]
+        self.record(test, st)
+        return [(self.evidence(test, s), o) for s, o in self.branch(test, st)]
+
+    def loop(self, s, st: _State, target) -> list:
+        """a loop whose iterations cannot be enumerated: zero iterations, or one arbitrary iteration with everything the body assigns unknown"""
+        assigned = _assigned_names(s.body) | (_assigned_names([target]) if target is not None else set())
+        if isinstance(s, ast.While):
+            assigned |= {n.target.id for n in walk_no_nested(s.test) if isinstance(n, ast.NamedExpr)}
+        out = []
+        any_iter = self.havoc(st, assigned)
+
+        def leave(s2: _State):
+            out.extend(self.block(s.orelse, s2))
+
+        if isinstance(s, ast.While):
+            for s2, o in self.cond_stmt(s.test, st):
+                if not o:
+                    leave(s2)
+            starts = [s2 for s2, o in self.cond_stmt(s.test, any_iter) if o]
+        else:
+            leave(st)
+            starts = [any_iter]
+        for s1 in starts:
+            for kind, s2, v in self.block(s.body, s1):
+                if kind in ("next", "continue"):
+                    s3 = self.havoc(s2, assigned)       # any number of further iterations
+                    if isinstance(s, ast.While):
+                        for s4, o in self.cond_stmt(s.test, s3):
+                            if not o:
+                                leave(s4)
+                    else:
+                        leave(s3)
+                elif kind == "break":
+                    out.append(("next", s2, None))
+                else:
+                    out.append((kind, s2, v))
+        return out
+
+    def do_for(self, s, st: _State) -> list:
+        st = self.walrus(s.iter, st)
+        self.record(s.iter, st)
+        it = strip_cast(s.iter)
+        if isinstance(it, ast.Call) and not isinstance(s, ast.AsyncFor):
+            t = self.target_of(it, st, False)
+            if t is not None and self.is_generator(t):
+                r = self.for_generator(s, t, it, st)
+                if r is not None:
+                    return r
+        out = []
+        for s0, itv in self.value(s.iter, st):
+            seq = strip_cast(itv)
+            if isinstance(seq, ast.Call) and isinstance(seq.func, ast.Name) and seq.func.id in ("tuple", "list", "iter") and len(seq.args) == 1:
+                seq = strip_cast(seq.args[0])
+            if isinstance(seq, ast.Call) and isinstance(seq.func, ast.Attribute) and seq.func.attr == "items" and not seq.args \
+                    and isinstance(seq.func.value, ast.Dict) and all(k is not None for k in seq.func.value.keys):
+                d = seq.func.value
+                seq = ast.Tuple(elts=[ast.Tuple(elts=[k, v], ctx=ast.Load()) for k, v in zip(d.keys, d.values)], ctx=ast.Load())
+            if isinstance(seq, (ast.Tuple, ast.List)) and not any(isinstance(x, ast.Starred) for x in seq.elts) and len(seq.elts) <= 8 \
+                    and not isinstance(s, ast.AsyncFor):
+                cur = [s0]
+                for x in seq.elts:
+                    nxt = []
+                    for c in cur:
+                        b = _bind_pattern(s.target, x)
+                        c = self.bind_all(c, b) if b is not None else self.havoc(c, _assigned_names([s.target]))
+                        for kind, s2, v in self.block(s.body, c):
+                            if kind in ("next", "continue"):
+                                nxt.append(s2)
+                            elif kind == "break":
+                                out.append(("next", s2, None))
+                            else:
+                                out.append((kind, s2, v))
+                    cur = nxt
+                for c in cur:
+                    out.extend(self.block(s.orelse, c))
+            else:
+                out.extend(self.loop(s, s0, s.target))
+        return out
+
+    def for_generator(self, s, t: FuncInfo, call: ast.Call, st: _State) -> list | None:
+        """`for x in self._gen(...)`: the generator body is walked and every `yield v` runs the loop body with x = v"""
+        if any(isinstance(n, ast.YieldFrom) or (isinstance(n, ast.Yield) and not isinstance(parent_of(n), ast.Expr))
+               for n in walk_no_nested(t.node)):
+            return None
+        env = self.bind_params(t, call, st)
+        if env is None:
+            return None
+        self.ctx.functions.add(t.where)
+        depth = len(st.frames) + 1
+
+        def on_yield(sg: _State, v) -> list:
+            gen = sg.frames[-1]
+            body_st = sg.pop()
+            b = _bind_pattern(s.target, v)
+            body_st = self.bind_all(body_st, b) if b is not None else self.havoc(body_st, _assigned_names([s.target]))
+            res = []
+            for kind, s2, val in self.block(s.body, body_st):
+                back = s2.with_frames((*s2.frames, gen))
+                if kind in ("next", "continue"):
+                    res.append(("next", back, None))
+                elif kind == "break":
+                    res.append(("gen-break", back, None))
+                elif kind == "return":
+                    res.append(("gen-return", back, val))
+                else:
+                    res.append((kind, back, val))
+            return res
+
+        prev = self.yield_k.get(depth)
+        self.yield_k[depth] = on_yield
+        try:
+            outs = self.block(t.node.body, st.push(t, env, True))
+        finally:
+            if prev is None:
+                self.yield_k.pop(depth, None)
+            else:
+                self.yield_k[depth] = prev
+        out = []
+        for kind, s2, v in outs:
+            if kind in ("next", "return"):
+                out.extend(self.block(s.orelse, s2.pop()))
+            elif kind == "gen-break":
+                out.append(("next", s2.pop(), None))
+            elif kind == "gen-return":
+                out.append(("return", s2.pop(), v))
+            else:
+                out.append((kind, s2.pop(), v))
+        return out
+
+    def do_yield(self, y, st: _State) -> list:
+        k = self.yield_k.get(len(st.frames))
+        if k is None or not st.frames[-1].gen or isinstance(y, ast.YieldFrom):
+            raise AnalysisError(f"undecided: yield outside a generator stepped by a for loop in {st.fi.qualname}")
+        if y.value is None:
+            return k(st, ast.Constant(value=None))
+        st = self.walrus(y.value, st)
+        self.record(y.value, st)
+        out = []
+        for s2, v in self.value(y.value, st):
+            out.extend(k(s2, v))
+        return out
+
+    def do_match(self, s, st: _State) -> list:
+        """cases are tried in order; `case <constant>` / `case A | B` / `case _` are decided like `subject == constant`"""
+        st = self.walrus(s.subject, st)
+        self.record(s.subject, st)
+        out = []
+        for s0, subj in self.value(s.subject, st):
+            pending = [s0]
+            for case in s.cases:
+                test = self.pattern_test(case.pattern, subj)
+                bound = _assigned_names([case.pattern]) | {n.name for n in ast.walk(case.pattern)
+                                                           if isinstance(n, (ast.MatchAs, ast.MatchStar)) and n.name}
+                nxt = []
+                for c in pending:
+                    if test is None:                     # structural pattern: may or may not match
+                        taken, nxt2 = [self.havoc(c, bound)], [c]
+                    else:
+                        r = self.branch(test, c, True)
+                        taken, nxt2 = [x for x, o in r if o], [x for x, o in r if not o]
+                    for t in taken:
+                        if case.guard is not None:
+                            for t2, o in self.cond_stmt(case.guard, t):
+                                if o:
+                                    out.extend(self.block(case.body, t2))
+                                else:
+                                    nxt2.append(t2)
+                        else:
+                            out.extend(self.block(case.body, t))
+                    nxt.extend(nxt2)
+                pending = nxt
+            out.extend(("next", c, None) for c in pending)
+        return out
+
+    def pattern_test(self, p, subj):
+        if isinstance(p, ast.MatchValue) and isinstance(p.value, ast.Constant):
+            return ast.Compare(left=subj, ops=[ast.Eq()], comparators=[p.value])
+        if isinstance(p, ast.MatchSingleton):
+            return ast.Compare(left=subj, ops=[ast.Is()], comparators=[ast.Constant(value=p.value)])
+        if isinstance(p, ast.MatchAs) and p.pattern is None and p.name is None:
+            return ast.Constant(value=True)
+        if isinstance(p, ast.MatchOr):
+            ts = [self.pattern_test(x, subj) for x in p.patterns]
+            return None if any(t is None for t in ts) else ast.BoolOp(op=ast.Or(), values=ts)
+        return None
+
+    def do_try(self, s, st: _State) -> list:
+        res = []
+        for kind, s2, v in self.block(s.body, st):
+            if kind == "next":
+                res.extend(self.block(s.orelse, s2))
+            elif kind == "raise" and s.handlers:
+                continue                    # covered by the handler paths below
+            else:
+                res.append((kind, s2, v))
+        if s.handlers:
+            # an exception may leave the body anywhere: what the body assigns is unknown, only the tests passed before the try hold
+            sh = self.havoc(st, _assigned_names(s.body))
+            for h in s.handlers:
+                s3 = self.havoc(sh, [h.name]) if h.name else sh
+                self.record(h.type, s3)
+                res.extend(self.block(h.body, s3))
+        if s.finalbody:
+            out = []
+            for kind, s2, v in res:
+                for k2, s4, v2 in self.block(s.finalbody, s2):
+                    out.append((kind, s4, v) if k2 == "next" else (k2, s4, v2))
+            return out
+        return res
+
+
+def _unconditional(e):
+    """sub-expressions of e that are evaluated whenever e is evaluated without raising (not the lazily evaluated positions)"""
+    stack = [e]
+    while stack:
+        n = stack.pop()
+        yield n
+        if isinstance(n, ast.BoolOp):
+            stack.append(n.values[0])
+        elif isinstance(n, ast.IfExp):
+            stack.append(n.test)
+        elif isinstance(n, (ast.Lambda, ast.ListComp, ast.SetComp, ast.DictComp, ast.GeneratorExp, ast.FunctionDef, ast.AsyncFunctionDef, ast.ClassDef)):
+            continue
+        elif isinstance(n, ast.Compare) and len(n.ops) > 1:
+            stack.extend([n.left, n.comparators[0]])
+        else:
+            stack.extend(c for c in ast.iter_child_nodes(n) if isinstance(c, ast.expr))
+
+
+_PURE_CALLS = {"len", "isinstance", "issubclass", "hasattr", "callable", "cast", "id", "repr", "str", "bool", "int", "bytes", "type", "tuple",
+               "list", "set", "dict", "frozenset", "any", "all", "min", "max", "sum", "sorted", "hexlify", "unhexlify", "getattr", "enumerate",
+               "zip", "range", "reversed", "iter", "abs"}
+
+
+def _has_effects(node) -> bool:
+    """may change the heap: a call that is not logging / a pure builtin / a dict read, an await, a store or delete through an object"""
+    for n in walk_no_nested(node):
+        if isinstance(n, ast.Call):
+            c = chain(n.func) or ""
+            last = c.rsplit(".", 1)[-1]
+            if c in _PURE_CALLS or c.startswith(("self.logger.", "logger.", "logging.")) or last in ("get", "has", "keys", "values", "items", "format"):
+                continue
+            return True
+        if isinstance(n, (ast.Await, ast.Yield, ast.YieldFrom, ast.Delete)):
+            return True
+        if isinstance(n, (ast.Attribute, ast.Subscript)) and isinstance(n.ctx, (ast.Store, ast.Del)):
+            return True
+    return False
+
+
+def _known_truth(e, recent: dict):
+    """truth of e as far as the atoms decided since the last effect say, else None"""
+    e = strip_cast(e)
+    if isinstance(e, ast.UnaryOp) and isinstance(e.op, ast.Not):
+        t = _known_truth(e.operand, recent)
+        return None if t is None else not t
+    if isinstance(e, ast.BoolOp):
+        stop = not isinstance(e.op, ast.And)
+        for v in e.values:
+            t = _known_truth(v, recent)
+            if t is None:
+                return None
+            if t is stop:
+                return stop
+        return not stop
+    c = _fold(e)
+    if c is not None:
+        return c
+    return recent.get(norm(e))
+
+
+def _settle(e, recent: dict):
+    """e with the conditional expressions whose test is already decided on this path replaced by the arm taken"""
+    if isinstance(e, ast.IfExp):
+        t = _known_truth(e.test, recent)
+        if t is not None:
+            return _settle(e.body if t else e.orelse, recent)
+        return e
+    if isinstance(e, ast.Subscript):
+        v, k = _settle(e.value, recent), _settle(e.slice, recent)
+        if v is not e.value or k is not e.slice:
+            return _lit_index(ast.copy_location(ast.Subscript(value=v, slice=k, ctx=e.ctx), e))
+    return e
+
+
+def _drop(st: _State, name: str) -> _State:
+    fr = st.frames[-1]
+    env = {k: v for k, v in fr.env.items() if k != name}
+    return st.with_frames((*st.frames[:-1], _Frame(fr.fi, env, fr.gen)))
+
+
+def parent_of(n):
+    return getattr(n, "_parent", None)
+
+
+def parent_is_closure(t: FuncInfo, cur: FuncInfo) -> bool:
+    """t is a function defined inside cur (it reads cur's locals)"""
+    from ..model import enclosing_function
+    return enclosing_function(t.node) is cur.node
+
+
+def _walk(ctx: Ctx, fi: FuncInfo, force=()) -> _Sym:
+    cache = ctx.__dict__.setdefault("_c05_walks", {})
+    key = (id(fi.node), tuple(sorted(id(f.node) for f in force)))
+    if key not in cache:
+        try:
+            cache[key] = _Sym(ctx, fi, force=force)
+        except RecursionError as e:          # pragma: no cover
+            raise AnalysisError(f"undecided: path walk of {fi.qualname} too deep") from e
+        except AnalysisError:
+            raise
+        except Exception as e:  # noqa: BLE001       # syntax the walk does not model: undecided, never a verdict
+            raise AnalysisError(f"undecided: path walk of {fi.qualname} failed on unmodelled syntax ({type(e).__name__}: {e})") from e
+    return cache[key]
+
+
+HOP_FIELDS = ("hop", "hops", "_hops")
+
+
+def _through_hop(fi: FuncInfo, e: ast.AST, depth: int = 5) -> bool:
+    """e denotes (part of) the adjacent-hop record of a routing object: its expression passes through `.hop` / `.hops`"""
+    e = strip_cast(e)
+    if depth <= 0:
+        return False
+    if isinstance(e, ast.Attribute):
+        return e.attr in HOP_FIELDS or _through_hop(fi, e.value, depth)
+    if isinstance(e, ast.Subscript):
+        return _through_hop(fi, e.value, depth)
+    if isinstance(e, ast.Call):
+        return _through_hop(fi, e.func, depth) if isinstance(e.func, ast.Attribute) else False
+    if isinstance(e, (ast.IfExp, ast.BoolOp)):
+        return any(_through_hop(fi, x, depth) for x in ([e.body, e.orelse] if isinstance(e, ast.IfExp) else e.values))
+    if isinstance(e, ast.NamedExpr):
+        return _through_hop(fi, e.value, depth)
+    if isinstance(e, ast.Name) and e.id not in fi.params():
+        return any(v is not None and _through_hop(fi, v if idx is None else v, depth - 1) for _st, v, idx in local_defs(fi, e.id))
+    return False
+
+
+def rule_hop_fixed(ctx: Ctx) -> None:
+    """
+    Replies of circuit X go to `<entry of X>.hop.address` (= hop.peer.address): the adjacent hop of a circuit / relay / exit entry is
+    whatever was authenticated when the entry was created.  Nothing may re-point it afterwards - a cell carries no replay protection, so
+    "the cell decrypted, follow its source address" hands the return path to whoever re-sends a captured datagram.
+    """
+    n = 0
+    for fi in _pkg_functions(ctx.repo):
+        for node in walk_no_nested(fi.node):
+            targets = []
+            if isinstance(node, ast.Assign):
+                targets = node.targets
+            elif isinstance(node, (ast.AugAssign, ast.AnnAssign)):
+                targets = [node.target] if not (isinstance(node, ast.AnnAssign) and node.value is None) else []
+            elif isinstance(node, ast.Delete):
+                targets = node.targets
+            elif isinstance(node, ast.Call):
+                f = node.func
+                hit = None
+                if isinstance(f, ast.Attribute) and f.attr in ("add_address", "__setattr__") and _through_hop(fi, f.value):
+                    hit = f.value
+                elif isinstance(f, ast.Name) and f.id in ("setattr", "delattr") and node.args and \
+                        (_through_hop(fi, node.args[0]) or (len(node.args) > 1 and const_value(node.args[1]) == "hop")):
+                    hit = node.args[0]
+                if hit is not None:
+                    n += 1
+                    ctx.check(False, "return-path-bound", fi, node, "no update of a routing entry's adjacent hop",
+                              f"`{norm(node)[:80]}` changes the adjacent hop of a routing entry after it was created: return traffic of that "
+                              "circuit follows `hop.address`, so it can be redirected away from the circuit's originator")
+                continue
+            flat = []
+            for t in targets:
+                flat.extend(t.elts if isinstance(t, (ast.Tuple, ast.List)) else [t])
+            for t in flat:
+                t = t.value if isinstance(t, ast.Starred) else t
+                if not isinstance(t, (ast.Attribute, ast.Subscript)):
+                    continue
+                if isinstance(t, ast.Attribute) and t.attr == "hop":
+                    n += 1
+                    ok = fi.name == "__init__" and chain(t.value) == "self"
+                    ctx.check(ok, "return-path-bound", fi, node, f"hop assigned in {fi.qualname} (constructor only)",
+                              "the adjacent hop of a routing object is replaced after construction: its return traffic goes to a different node")
+                elif _through_hop(fi, t.value):
+                    n += 1
+                    ctx.check(False, "return-path-bound", fi, node, "no store through a routing entry's hop",
+                              f"`{norm(t)}` is assigned in {fi.qualname}: the adjacent hop (peer / address / keys) of an existing routing entry is changed "
+                              "after the entry was created; replies of that circuit are sent to `hop.address`, so whoever triggers this store "
+                              "(cells carry no replay protection) receives the circuit's return traffic instead of its originator")
+    ctx.floor("return-path-bound.hop-fixed", n, 1)
+
+
+def _generated_id(ctx: Ctx, k: ast.AST) -> bool:
+    """k (expanded) is an id we generated ourselves: `self._generate_circuit_id()`, or such an id parked in our own request-cache entry"""
+    k = strip_cast(k)
+    if isinstance(k, ast.Call) and chain(k.func) == "self._generate_circuit_id":
+        return True
+    if not (isinstance(k, ast.Attribute) and isinstance(strip_cast(k.value), ast.Call)):
+        return False
+    look = strip_cast(k.value)
+    if k.attr == "circuit_id":
+        # Circuit(self._generate_circuit_id(), ...).circuit_id: a routing object keeps the id it was constructed with (return-path-bound)
+        made = ctx.repo.resolve_class_expr(ctx.repo.module(TC), look.func)
+        first = arg(look, 0, "circuit_id")
+        if made is not None and made.is_subclass_of("RoutingObject") and first is not None and _generated_id(ctx, first):
+            return True
+    if chain(look.func) not in ("self.request_cache.pop", "self.request_cache.get") or not look.args:
+        return False
+    repo = ctx.repo
+    tc = repo.module(TC)
+    cls = repo.resolve_class_expr(tc, look.args[0])
+    init = cls.lookup("__init__") if cls is not None else None
+    if init is None or init.cls is not cls:
+        return False
+    param = None
+    for stt, v, idx in [(a, a.value, None) for a in walk_no_nested(init.node) if isinstance(a, ast.Assign)]:
+        for t in stt.targets:
+            if isinstance(t, ast.Attribute) and chain(t.value) == "self" and t.attr == k.attr and isinstance(strip_cast(v), ast.Name):
+                param = strip_cast(v).id
+    names = init.params()
+    if param is None or param not in names:
+        return False
+    pos = names.index(param) - 1
+    ctors = [(c_fi, c) for _m, c_fi, c in repo.callers_of_name(cls.name) if c_fi is not None]
+    if not ctors:
+        return False
+    for c_fi, c in ctors:
+        a = arg(c, pos, param)
+        if a is None:
+            return False
+        alts = _alternatives(c_fi, a)
+        if not alts or not all(isinstance(x, ast.Call) and chain(x.func) == "self._generate_circuit_id" for x in alts):
+            return False
+    return True
+
+
+def rule_entry_conversion(ctx: Ctx) -> None:
+    """
+    A store into a routing table under an id that did not come off the wire (those are no-overwrite-live-id's) puts a NEW entry there only
+    if the id is one we just generated, or converts an entry that exists under the same id in ANOTHER table (exit socket -> relay pair when
+    the circuit is extended / linked): ids are unique over the three tables, so presence elsewhere proves that no live entry of the
+    destination table is replaced.  Anything else can overwrite an established entry of a different circuit.
+    """
+    repo = ctx.repo
+    n = 0
+    for fi in _pkg_functions(repo):
+        stores = [(st, t) for st in walk_no_nested(fi.node) if isinstance(st, ast.Assign) for t in st.targets
+                  if isinstance(t, ast.Subscript) and _table_of(chain(t))]
+        for st, t in stores:
+            if _wire_controlled(ctx, fi, t.slice)[0]:
+                n += 1
+                ctx.instance("entry-conversion", fi.where, f"{norm(t)}: id taken from a message, decided by no-overwrite-live-id", line=st.lineno)
+        stores = [(st, t) for st, t in stores if not _wire_controlled(ctx, fi, t.slice)[0]]
+        if not stores:
+            continue
+        # a private helper is judged where it is used: the walks start in the functions that (transitively) call it
+        entries, chain_of = [fi], [fi]
+        for _ in range(3):
+            if not all(e.name.startswith("_") and not e.name.startswith("__") for e in entries):
+                break
+            ups = [u for e in entries for u in _callers_within(repo, e)]
+            if not ups or any(u is None or not u.module.relpath.startswith(PKG) for u in ups):
+                break
+            entries = list({id(u.node): u for u in ups}.values())
+            chain_of.extend(entries)
+        walks = [_try_walk(ctx, e, force=tuple(chain_of)) for e in entries]
+        if any(w is None for w in walks):
+            raise AnalysisError(f"undecided: entry-conversion: stores of {fi.qualname} could not be followed")
+        for st, t in stores:
+            dest = TABLES[_table_of(chain(t))]
+            others = tuple(c for c in TABLES.values() if c != dest)
+            hits = [h for w in walks for h in w.hits if h.kind == "store" and h.orig is t]
+
+            def path_ok(h: _Hit, others=others) -> bool:
+                k = strip_cast(h.node().slice)
+                if _generated_id(ctx, k):
+                    return True
+                key = norm(k)
+                if any(_present(f, others, lambda x: norm(x) == key) for f in h.facts()):
+                    return True
+                # the id is read off an entry of another table (an entry is stored under its own circuit_id)
+                if isinstance(k, ast.Attribute) and k.attr == "circuit_id" and _entry_of(k.value, others, lambda x: True):
+                    ent = strip_cast(k.value)
+                    return isinstance(ent, ast.Subscript) or any(_present(f, others, lambda x: True) and norm(strip_cast(f.left)) == norm(ent)
+                                                                 for f in h.facts() if f.op in ("truthy", "is", "eq"))
+                return False
+
+            n += max(1, len({norm(h.node().slice) for h in hits}))
+            _decide(ctx, "entry-conversion", fi, st, False, hits, path_ok,
+                    f"store {norm(t)}: fresh id of our own, or conversion of the entry that exists under that id in another table",
+                    f"`{norm(t)}` is stored on a path where its id is neither freshly generated nor known to be an existing "
+                    f"{'/'.join(o.split('.')[-1] for o in others)} entry that is being converted: a late or repeated message can replace an "
+                    f"established {dest.split('.')[-1]} entry, re-routing a circuit that belongs to somebody else")
+    ctx.floor("entry-conversion", n, 6)
 
 
 def run(ctx: Ctx) -> None:
@@ -650,6 +2417,8 @@ def run(ctx: Ctx) -> None:
     rule_return_path(ctx)
     rule_removers(ctx)
     rule_auth_failure_inert(ctx)
+    rule_hop_fixed(ctx)
+    rule_entry_conversion(ctx)
     ctx.assume("no shared mutable state between circuits besides the three routing tables and request caches (structural argument; interleavings not explored)")
     ctx.assume("collision of locally generated 32-bit ids with relay/exit ids is a 2^-32 event and not decided")
 
@@ -699,6 +2468,18 @@ WITNESSES = [
     {"name": "create admission evicts an existing relay", "file": TC, "rule": "create-changes-nothing",
      "old": "            self.logger.warning(\"Too many relays (%d)\", (len(self.relay_from_to) + len(self.exit_sockets)))\n            return False\n",
      "new": "            self.logger.warning(\"Too many relays (%d)\", (len(self.relay_from_to) + len(self.exit_sockets)))\n            self.remove_relay(next(iter(self.relay_from_to)), \"make room\")\n"},
+    {"name": "exit socket's previous hop follows the source address of an accepted cell (seeded C05-m9)", "file": "ipv8/messaging/anonymization/crypto.py",
+     "rule": "return-path-bound",
+     "old": "        circuit = self.circuits.get(cell.circuit_id)\n        if circuit:\n            circuit.beat_heart()\n            circuit.bytes_down += len(data)\n",
+     "new": "        circuit = self.circuits.get(cell.circuit_id)\n        if circuit:\n            circuit.beat_heart()\n            circuit.bytes_down += len(data)\n"
+            "        exit_socket = self.exit_sockets.get(cell.circuit_id)\n        if exit_socket and exit_socket.hop.address != source_address:\n"
+            "            exit_socket.hop.peer.address = source_address\n"},
+    {"name": "hop of an exit socket replaced by the ping handler", "file": TC, "rule": "return-path-bound",
+     "old": "        exit_socket = self.exit_sockets.get(payload.circuit_id)\n        if exit_socket:\n            exit_socket.beat_heart()\n\n        self.send_cell(source_address, PongPayload",
+     "new": "        exit_socket = self.exit_sockets.get(payload.circuit_id)\n        if exit_socket:\n            exit_socket.beat_heart()\n            exit_socket.hop = Hop(Peer(exit_socket.hop.peer.public_key, source_address), exit_socket.hop.keys)\n\n        self.send_cell(source_address, PongPayload"},
+    {"name": "late CREATED re-routes an established relay (seeded C05-m7)", "file": TC, "rule": "entry-conversion",
+     "old": "            if request.from_circuit_id not in self.exit_sockets:\n                self.logger.info(\"Created for unknown exit socket %s\", request.from_circuit_id)\n                return\n            session_keys = self.exit_sockets[request.from_circuit_id].hop.keys\n",
+     "new": "            previous = self.exit_sockets.get(request.from_circuit_id) or self.relay_from_to.get(request.from_circuit_id)\n            if previous is None:\n                self.logger.info(\"Created for unknown exit socket %s\", request.from_circuit_id)\n                return\n            session_keys = previous.hop.keys\n"},
     {"name": "ping handler removes an exit entry", "file": TC, "rule": "table-removers",
      "old": "        exit_socket = self.exit_sockets.get(payload.circuit_id)\n        if exit_socket:\n            exit_socket.beat_heart()\n\n        self.send_cell(source_address, PongPayload",
      "new": "        exit_socket = self.exit_sockets.get(payload.circuit_id)\n        if exit_socket:\n            exit_socket.beat_heart()\n        else:\n            self.remove_exit_socket(payload.identifier)\n\n        self.send_cell(source_address, PongPayload"},
